@@ -1,10 +1,11 @@
 /-
-Helper lemmas for C20 (Props/C20.lean): the staging layer of compression.c on a lower transport
-that accepts every write completely (write side), and the read path under any fragmentation.
+Helper lemmas for C20 (Props/C20.lean): the staging layer of compression.c under ANY answer
+schedule of the lower transport (write side) and under any fragmentation (read side).
 
-Method: a disconnect or a fuel exhaustion is never undone (`FlagsLe`), so a history that ends
-connected and not diverged went through the good path of every function; on these paths the
-invariants `Core` / `RunInv` (write) and `RInv` (read) are preserved.
+Method: a disconnect or a fuel exhaustion is never undone (`FlagsLe`); the invariants `Core` /
+`RunInv` (write: everything deflate produced is either forwarded or still staged, in order;
+everything deflate consumed is a prefix of the submitted stream and the send queue remembers
+exactly how far it got) and `RInv` (read) are preserved by every function.
 -/
 import Strophe.Spec.Zlib
 namespace Strophe.Lemmas.Compression
@@ -28,6 +29,11 @@ theorem Good.of_le {s t : St C} (h : FlagsLe s t) (g : Good t) : Good s := by
   | false => rfl
   | true => have := h.2 hd; rw [g.2] at this; cases this
 
+theorem nodiv_of_le {s t : St C} (h : FlagsLe s t) (g : t.diverged = false) : s.diverged = false := by
+  cases hd : s.diverged with
+  | false => rfl
+  | true => have := h.2 hd; rw [g] at this; cases this
+
 theorem lowerWrite_flags (s : St C) (b : Bytes) :
     (lowerWrite s b).1.connected = s.connected ∧ (lowerWrite s b).1.diverged = s.diverged := by
   unfold lowerWrite
@@ -41,16 +47,34 @@ theorem tryWrite_flags (s : St C) (f : Bool) :
   split
   · split
     · exact lowerWrite_flags s s.out
-    · simpa using lowerWrite_flags s s.out
-  · simp
+    · exact lowerWrite_flags s s.out
+  · exact ⟨rfl, rfl⟩
 
 def _root_.Strophe.Compression.LoopOut.st : LoopOut C → St C
   | .ret s _ => s
   | .done s _ => s
   | .fuel s => s
 
+/-- the value `_compression_write` continues with / returns -/
+def _root_.Strophe.Compression.LoopOut.val : LoopOut C → Option Int
+  | .ret _ r => some r
+  | .done _ r => some r
+  | .fuel _ => none
+
+def _root_.Strophe.Compression.LoopOut.isRet : LoopOut C → Bool
+  | .ret _ _ => true
+  | _ => false
+
+def _root_.Strophe.Compression.LoopOut.isDone : LoopOut C → Bool
+  | .done _ _ => true
+  | _ => false
+
 theorem disconnect_le (s : St C) : FlagsLe s (disconnect s) := by
   refine ⟨?_, ?_⟩ <;> simp [disconnect]
+
+theorem tryWrite_le (s : St C) (f : Bool) : FlagsLe s (tryWrite s f).1 := by
+  have ht := tryWrite_flags s f
+  exact ⟨fun h => by rw [← ht.1]; exact h, fun h => by rw [ht.2]; exact h⟩
 
 theorem cwLoop_le : ∀ (fuel : Nat) (s : St C) (inp : Bytes) (k : Nat) (fl : Int),
     FlagsLe s (cwLoop fuel s inp k fl).st := by
@@ -59,8 +83,7 @@ theorem cwLoop_le : ∀ (fuel : Nat) (s : St C) (inp : Bytes) (k : Nat) (fl : In
   | zero => intro s inp k fl; simp [cwLoop, LoopOut.st, FlagsLe.refl]
   | succ fuel ih =>
     intro s inp k fl
-    have ht := tryWrite_flags s false
-    have hle : FlagsLe s (tryWrite s false).1 := ⟨fun h => by rw [← ht.1]; exact h, fun h => by rw [ht.2]; exact h⟩
+    have hle := tryWrite_le s false
     unfold cwLoop
     simp only
     split
@@ -76,22 +99,20 @@ theorem cwLoop_le : ∀ (fuel : Nat) (s : St C) (inp : Bytes) (k : Nat) (fl : In
             · refine hle.trans (FlagsLe.trans ?_ (ih _ _ _ _))
               exact ⟨by simp, by simp⟩
 
-theorem tryWrite_le (s : St C) (f : Bool) : FlagsLe s (tryWrite s f).1 := by
-  have ht := tryWrite_flags s f
-  exact ⟨fun h => by rw [← ht.1]; exact h, fun h => by rw [ht.2]; exact h⟩
-
 theorem compressionWrite_le (fuel : Nat) (s : St C) (inp : Bytes) (fl : Int) :
     FlagsLe s (compressionWrite fuel s inp fl).1 := by
   have h := cwLoop_le fuel s inp 0 fl
   unfold compressionWrite
   split
-  · rename_i s' r heq; rw [heq] at h; exact h
-  · rename_i s' heq; rw [heq] at h
-    exact h.trans ⟨by simp [LoopOut.st], by simp [LoopOut.st]⟩
-  · rename_i s' r heq; rw [heq] at h
-    split
-    · exact h.trans (tryWrite_le _ _)
-    · exact h
+  · exact FlagsLe.refl s
+  · split
+    · rename_i s' r heq; rw [heq] at h; exact h
+    · rename_i s' heq; rw [heq] at h
+      exact h.trans ⟨by simp [LoopOut.st], by simp [LoopOut.st]⟩
+    · rename_i s' r heq; rw [heq] at h
+      split
+      · exact h.trans (tryWrite_le _ _)
+      · exact h
 
 theorem compressionFlush_le (fuel : Nat) (s : St C) : FlagsLe s (compressionFlush fuel s).1 :=
   compressionWrite_le _ _ _ _
@@ -147,16 +168,582 @@ theorem run_le (fuel : Nat) : ∀ (ops : List Op) (s : St C), FlagsLe s (run fue
   | nil => intro s; exact FlagsLe.refl s
   | cons op rest ih => intro s; exact (runOp_le fuel s op).trans (ih _)
 
-/-! ### the all-accepting lower transport: nothing staged is ever lost -/
+/-! ### what every staging function preserves, whatever the lower transport answers -/
 
 theorem bufSize_pos : 0 < bufSize := by decide
 
-/-- what holds between calls when the lower transport takes everything it is offered -/
+/-- everything deflate produced is forwarded or still staged, in order -/
 structure Core (H : HDeflate C) (s : St C) : Prop where
   okz : H.ok s.z
   stream : s.net ++ s.out = H.prod s.z
   outLe : s.out.length ≤ bufSize
-  allAcc : ∀ a ∈ s.sched, a = Accept.all
+
+/-- the schedule contains no hard error -/
+def NoErr (s : St C) : Prop := Accept.err ∉ s.sched
+
+theorem recoverable_eagain : recoverable Gen.Zl.eAgain = true := by decide
+
+theorem lowerWrite_gen (s : St C) (b : Bytes) :
+    (lowerWrite s b).1.z = s.z ∧ (lowerWrite s b).1.out = s.out ∧
+    (lowerWrite s b).1.net = s.net ++ b.take (lowerWrite s b).2.toNat ∧
+    (lowerWrite s b).1.queue = s.queue ∧
+    (NoErr s → (lowerWrite s b).1.error = s.error ∧ NoErr (lowerWrite s b).1 ∧
+      ((lowerWrite s b).2 < 0 → recoverable (lowerWrite s b).1.lerr = true)) := by
+  unfold lowerWrite NoErr
+  simp only
+  cases hs : s.sched with
+  | nil =>
+    have hneg : ¬ ((b.length : Int) < 0) := by omega
+    simp [popSched, Accept.ret, hneg]
+  | cons a rest =>
+    cases a with
+    | all =>
+      have hneg : ¬ ((b.length : Int) < 0) := by omega
+      simp [popSched, Accept.ret, hneg]
+    | upTo k =>
+      have hneg : ¬ (((min k b.length : Nat) : Int) < 0) := by omega
+      simp [popSched, Accept.ret, hneg]
+    | again =>
+      simp [popSched, Accept.ret, recoverable_eagain]
+    | err =>
+      have hr : recoverable Gen.Zl.eConnReset = false := by decide
+      simp [popSched, Accept.ret, hr]
+
+theorem tryWrite_gen (H : HDeflate C) (s : St C) (f : Bool) (hc : Core H s) :
+    Core H (tryWrite s f).1 ∧ (tryWrite s f).1.z = s.z ∧ (tryWrite s f).1.queue = s.queue ∧
+    (tryWrite s f).1.connected = s.connected ∧ (tryWrite s f).1.diverged = s.diverged ∧
+    (NoErr s → (tryWrite s f).1.error = s.error ∧ NoErr (tryWrite s f).1 ∧
+      ((tryWrite s f).2 < 0 → recoverable (tryWrite s f).1.lerr = true)) := by
+  obtain ⟨hz, ho, hn, hq, hne⟩ := lowerWrite_gen s s.out
+  have hfl := lowerWrite_flags s s.out
+  unfold tryWrite
+  simp only
+  split
+  · split
+    · rename_i hneg
+      refine ⟨⟨by rw [hz]; exact hc.okz, ?_, by rw [ho]; exact hc.outLe⟩, hz, hq, hfl.1, hfl.2, hne⟩
+      rw [hz, hn, ho, ← hc.stream]
+      have : (lowerWrite s s.out).2.toNat = 0 := by omega
+      rw [this]; simp
+    · refine ⟨⟨by rw [hz]; exact hc.okz, ?_, ?_⟩, hz, hq, hfl.1, hfl.2, ?_⟩
+      · show (lowerWrite s s.out).1.net ++ (lowerWrite s s.out).1.out.drop _ = H.prod (lowerWrite s s.out).1.z
+        rw [hz, hn, ho, ← hc.stream, List.append_assoc, List.take_append_drop]
+      · show ((lowerWrite s s.out).1.out.drop _).length ≤ bufSize
+        rw [ho, List.length_drop]
+        have := hc.outLe
+        omega
+      · intro h
+        obtain ⟨e1, e2, e3⟩ := hne h
+        exact ⟨e1, e2, e3⟩
+  · exact ⟨hc, rfl, rfl, rfl, rfl, fun h => ⟨rfl, h, fun h0 => by simp at h0⟩⟩
+
+/-- the state after one deflate call keeps the core invariant -/
+theorem core_after_deflate (H : HDeflate C) (t : St C) (inp : Bytes) (fl : Int) (hc : Core H t) :
+    Core H { t with z := (C.deflate t.z inp fl (bufSize - t.out.length)).1,
+                    out := t.out ++ (C.deflate t.z inp fl (bufSize - t.out.length)).2.2.1 } := by
+  refine ⟨H.step_ok _ _ _ _ hc.okz, ?_, ?_⟩
+  · show t.net ++ (t.out ++ _) = _
+    rw [H.step_prod _ _ _ _ hc.okz, ← hc.stream, List.append_assoc]
+  · show (t.out ++ _).length ≤ bufSize
+    have h1 := H.produced_le t.z inp fl (bufSize - t.out.length) hc.okz
+    have h2 := hc.outLe
+    simp only [List.length_append]
+    omega
+
+/-- what one run of the do/while of `_compression_write` guarantees, however it is left -/
+structure LoopPost (H : HDeflate C) (s : St C) (inp : Bytes) (k : Nat) (fl : Int) (o : LoopOut C) :
+    Prop where
+  core : Core H o.st
+  queue : o.st.queue = s.queue
+  conn : o.st.connected = s.connected
+  div : o.st.diverged = s.diverged
+  /-- deflate has consumed exactly the first `m` bytes of the input -/
+  cons : ∃ m, m ≤ inp.length ∧ H.cons o.st.z = H.cons s.z ++ inp.take m ∧
+    (fl = 0 → ∀ r, o.val = some r → r.toNat = k + m ∧ r ≤ ((k + inp.length : Nat) : Int)) ∧
+    (fl = 0 → o.isDone = true → m = inp.length)
+  err : NoErr s → o.st.error = s.error ∧ NoErr o.st ∧
+    (∀ r, o.isRet = true → o.val = some r → r < 0 → recoverable o.st.lerr = true)
+
+theorem zOk_ne_streamEnd : Gen.Zl.zOk ≠ Gen.Zl.zStreamEnd := by decide
+theorem zBufError_ne_streamEnd : Gen.Zl.zBufError ≠ Gen.Zl.zStreamEnd := by decide
+theorem zBufError_ne_ok : Gen.Zl.zBufError ≠ Gen.Zl.zOk := by decide
+
+theorem cwLoop_gen (H : HDeflate C) : ∀ (fuel : Nat) (s : St C) (inp : Bytes) (k : Nat) (fl : Int),
+    Core H s → (fl = 0 → inp ≠ []) → LoopPost H s inp k fl (cwLoop fuel s inp k fl) := by
+  intro fuel
+  induction fuel with
+  | zero =>
+    intro s inp k fl hc _
+    simp only [cwLoop]
+    exact ⟨hc, rfl, rfl, rfl, ⟨0, by omega, by simp [LoopOut.st], by simp [LoopOut.val], by simp [LoopOut.isDone]⟩,
+      fun h => ⟨rfl, h, by simp [LoopOut.isRet]⟩⟩
+  | succ fuel ih =>
+    intro s inp k fl hc hne
+    obtain ⟨htc, htz, htq, htconn, htdiv, hterr⟩ := tryWrite_gen H s false hc
+    unfold cwLoop
+    simp only
+    split
+    · -- the lower layer would block
+      refine ⟨htc, htq, htconn, htdiv, ⟨0, by omega, by simp [LoopOut.st, htz], ?_, by simp [LoopOut.isDone]⟩, ?_⟩
+      · intro _ r hr
+        simp only [LoopOut.val, Option.some.injEq] at hr
+        subst hr
+        split
+        · exact ⟨by simp, by omega⟩
+        · rename_i hcond
+          have h1 : k = 0 := by omega
+          have h2 : (tryWrite s false).2 < 0 := by omega
+          subst h1
+          exact ⟨by omega, by omega⟩
+      · intro hn
+        obtain ⟨e1, e2, e3⟩ := hterr hn
+        refine ⟨e1, e2, ?_⟩
+        intro r _ hr hneg
+        simp only [LoopOut.val, Option.some.injEq] at hr
+        subst hr
+        split at hneg
+        · omega
+        · exact e3 hneg
+    · rename_i hnb
+      have hroom : 0 < bufSize - (tryWrite s false).1.out.length := by omega
+      have hok := htc.okz
+      have hcd := core_after_deflate H (tryWrite s false).1 inp fl htc
+      have hcl := H.consumed_le (tryWrite s false).1.z inp fl (bufSize - (tryWrite s false).1.out.length) hok
+      have hsc := H.step_cons (tryWrite s false).1.z inp fl (bufSize - (tryWrite s false).1.out.length) hok
+      have hnoerr := H.no_error (tryWrite s false).1.z inp fl (bufSize - (tryWrite s false).1.out.length) hok
+      have hprog := H.progress (tryWrite s false).1.z inp fl (bufSize - (tryWrite s false).1.out.length) hok
+      have hconsm : H.cons (C.deflate (tryWrite s false).1.z inp fl (bufSize - (tryWrite s false).1.out.length)).1 =
+          H.cons s.z ++ inp.take (C.deflate (tryWrite s false).1.z inp fl (bufSize - (tryWrite s false).1.out.length)).2.1 := by
+        rw [hsc, htz]
+      have herr1 : NoErr s → (tryWrite s false).1.error = s.error ∧ NoErr (tryWrite s false).1 :=
+        fun h => ⟨(hterr h).1, (hterr h).2.1⟩
+      split
+      · rename_i h
+        cases hnoerr with
+        | inl h1 => rw [h1] at h; exact absurd h zOk_ne_streamEnd
+        | inr h1 => rw [h1] at h; exact absurd h zBufError_ne_streamEnd
+      · split
+        · rename_i hbe
+          refine ⟨hcd, htq, htconn, htdiv, ⟨_, hcl, hconsm, ?_, ?_⟩, ?_⟩
+          · intro h0; exact absurd h0 hbe.1
+          · intro h0; exact absurd h0 hbe.1
+          · intro hn
+            exact ⟨(herr1 hn).1, (herr1 hn).2, by simp [LoopOut.isRet]⟩
+        · split
+          · rename_i hnbe hnok
+            -- rc = Z_BUF_ERROR with Z_NO_FLUSH: excluded by `progress`
+            exfalso
+            cases hnoerr with
+            | inl h1 => exact hnok h1
+            | inr h1 =>
+              have hfl0 : fl = 0 := by
+                by_cases h0 : fl = 0
+                · exact h0
+                · exact absurd ⟨h0, h1⟩ hnbe
+              exact hprog (hne hfl0) hroom h1
+          · split
+            · rename_i hexit
+              refine ⟨hcd, htq, htconn, htdiv, ⟨_, hcl, hconsm, ?_, ?_⟩, ?_⟩
+              · intro _ r hr
+                simp only [LoopOut.val, Option.some.injEq] at hr
+                subst hr
+                exact ⟨by omega, by omega⟩
+              · intro _ _
+                have : inp.length ≤ (C.deflate (tryWrite s false).1.z inp fl (bufSize - (tryWrite s false).1.out.length)).2.1 := by
+                  simpa [List.isEmpty_iff, List.drop_eq_nil_iff] using hexit.1
+                omega
+              · intro hn
+                exact ⟨(herr1 hn).1, (herr1 hn).2, by simp [LoopOut.isRet]⟩
+            · rename_i hnexit
+              have hne' : fl = 0 → inp.drop (C.deflate (tryWrite s false).1.z inp fl (bufSize - (tryWrite s false).1.out.length)).2.1 ≠ [] := by
+                intro h0 hemp
+                apply hnexit
+                exact ⟨by simp [hemp], fun h => h.1 h0⟩
+              have hp := ih _ (inp.drop (C.deflate (tryWrite s false).1.z inp fl (bufSize - (tryWrite s false).1.out.length)).2.1)
+                (k + (C.deflate (tryWrite s false).1.z inp fl (bufSize - (tryWrite s false).1.out.length)).2.1) fl hcd hne'
+              obtain ⟨m, hm, hcm, hval, hdone⟩ := hp.cons
+              refine ⟨hp.core, hp.queue.trans htq, hp.conn.trans htconn, hp.div.trans htdiv,
+                ⟨(C.deflate (tryWrite s false).1.z inp fl (bufSize - (tryWrite s false).1.out.length)).2.1 + m, ?_, ?_, ?_, ?_⟩, ?_⟩
+              · rw [List.length_drop] at hm; omega
+              · rw [hcm]
+                show H.cons (C.deflate _ _ _ _).1 ++ _ = _
+                rw [hconsm, List.append_assoc, ← List.take_add]
+              · intro h0 r hr
+                obtain ⟨a, b⟩ := hval h0 r hr
+                rw [List.length_drop] at b
+                exact ⟨by omega, by omega⟩
+              · intro h0 hd
+                have := hdone h0 hd
+                rw [List.length_drop] at this
+                omega
+              · intro hn
+                obtain ⟨e1, e2, e3⟩ := hp.err (herr1 hn).2
+                exact ⟨e1.trans (herr1 hn).1, e2, e3⟩
+
+theorem writeMode_zero : Gen.Zl.compressionWriteMode = 0 := by decide
+theorem flushMode_ne_zero (b : Bool) :
+    (if b then Gen.Zl.compressionFlushModeDontReset else Gen.Zl.compressionFlushModeReset) ≠ 0 := by
+  cases b <;> decide
+
+/-- compression_write under any schedule: unless fuel ran out, the return value says exactly how
+    much of the element deflate has consumed, and nothing staged was lost -/
+theorem compressionWrite_gen (H : HDeflate C) (fuel : Nat) (s : St C) (inp : Bytes) (hc : Core H s)
+    (hd : (compressionWrite fuel s inp 0).1.diverged = false) :
+    Core H (compressionWrite fuel s inp 0).1 ∧ (compressionWrite fuel s inp 0).1.queue = s.queue ∧
+    (compressionWrite fuel s inp 0).1.connected = s.connected ∧
+    H.cons (compressionWrite fuel s inp 0).1.z =
+      H.cons s.z ++ inp.take (compressionWrite fuel s inp 0).2.toNat ∧
+    (compressionWrite fuel s inp 0).2 ≤ (inp.length : Int) ∧
+    ((compressionWrite fuel s inp 0).2 = (inp.length : Int) →
+      H.cons (compressionWrite fuel s inp 0).1.z = H.cons s.z ++ inp) ∧
+    (NoErr s → (compressionWrite fuel s inp 0).1.error = s.error ∧
+      NoErr (compressionWrite fuel s inp 0).1 ∧
+      ((compressionWrite fuel s inp 0).2 < 0 → recoverable (compressionWrite fuel s inp 0).1.lerr = true)) := by
+  revert hd
+  unfold compressionWrite
+  split
+  · rename_i hemp
+    intro _
+    have : inp = [] := List.isEmpty_iff.mp hemp.1
+    subst this
+    exact ⟨hc, rfl, rfl, by simp, by simp, fun _ => by simp, fun h => ⟨rfl, h, fun h0 => by simp at h0⟩⟩
+  · rename_i hnemp
+    have hne : (0 : Int) = 0 → inp ≠ [] := by
+      intro _ h
+      apply hnemp
+      exact ⟨by simp [h], rfl⟩
+    have hp := cwLoop_gen H fuel s inp 0 0 hc hne
+    obtain ⟨m, hm, hcm, hval, hdone⟩ := hp.cons
+    split
+    · rename_i s' r heq
+      rw [heq] at hp hcm hval hdone
+      intro _
+      obtain ⟨a, b⟩ := hval rfl r rfl
+      simp only [LoopOut.st] at hp hcm
+      have hmr : m = r.toNat := by omega
+      refine ⟨hp.core, hp.queue, hp.conn, by rw [← hmr]; exact hcm, by simpa using b, ?_, ?_⟩
+      · intro hr
+        have : m = inp.length := by omega
+        rw [hcm, this, List.take_length]
+      · intro hn
+        obtain ⟨e1, e2, e3⟩ := hp.err hn
+        exact ⟨e1, e2, fun h0 => e3 r rfl rfl h0⟩
+    · intro hd; simp at hd
+    · rename_i s' r heq
+      rw [heq] at hp hcm hval hdone
+      intro _
+      obtain ⟨a, b⟩ := hval rfl r rfl
+      have hml := hdone rfl rfl
+      have hpos : 0 < inp.length := List.length_pos_iff.mpr (hne rfl)
+      simp only [LoopOut.st] at hp hcm
+      have hmr : m = r.toNat := by omega
+      simp only [ne_eq, not_true_eq_false, ↓reduceIte]
+      refine ⟨hp.core, hp.queue, hp.conn, by rw [← hmr]; exact hcm, by simpa using b, ?_, ?_⟩
+      · intro _
+        rw [hcm, hml, List.take_length]
+      · intro hn
+        obtain ⟨e1, e2, _⟩ := hp.err hn
+        refine ⟨e1, e2, fun h0 => ?_⟩
+        omega
+
+theorem compressionFlush_gen (H : HDeflate C) (fuel : Nat) (s : St C) (hc : Core H s)
+    (hd : (compressionFlush fuel s).1.diverged = false) :
+    Core H (compressionFlush fuel s).1 ∧ (compressionFlush fuel s).1.queue = s.queue ∧
+    (compressionFlush fuel s).1.connected = s.connected ∧
+    H.cons (compressionFlush fuel s).1.z = H.cons s.z ∧
+    (NoErr s → (compressionFlush fuel s).1.error = s.error ∧ NoErr (compressionFlush fuel s).1) := by
+  have hfl := flushMode_ne_zero s.dontReset
+  have hp := cwLoop_gen H fuel s [] 0 _ hc (fun h => absurd h hfl)
+  obtain ⟨m, hm, hcm, _, _⟩ := hp.cons
+  have hm0 : m = 0 := by simpa using hm
+  subst hm0
+  revert hd
+  unfold compressionFlush compressionWrite
+  have hcond : ¬ (([] : Bytes).isEmpty = true ∧
+      (if s.dontReset then Gen.Zl.compressionFlushModeDontReset else Gen.Zl.compressionFlushModeReset) = 0) :=
+    fun h => hfl h.2
+  simp only [hcond, ↓reduceIte]
+  split
+  · rename_i s' r heq
+    rw [heq] at hp hcm
+    intro _
+    simp only [LoopOut.st] at hp hcm
+    exact ⟨hp.core, hp.queue, hp.conn, by simpa using hcm, fun hn => ⟨(hp.err hn).1, (hp.err hn).2.1⟩⟩
+  · intro hd; simp at hd
+  · rename_i s' r heq
+    rw [heq] at hp hcm
+    intro _
+    simp only [LoopOut.st] at hp hcm
+    simp only [hfl, ne_eq, not_false_eq_true, ↓reduceIte]
+    obtain ⟨tc, tz, tq, tconn, _, terr⟩ := tryWrite_gen H s' true hp.core
+    refine ⟨tc, tq.trans hp.queue, tconn.trans hp.conn, by rw [tz]; simpa using hcm, ?_⟩
+    intro hn
+    obtain ⟨e1, e2, _⟩ := hp.err hn
+    obtain ⟨f1, f2, _⟩ := terr e2
+    exact ⟨f1.trans e1, f2⟩
+
+theorem upperWrite_gen (H : HDeflate C) (fuel : Nat) (s : St C) (inp : Bytes) (hc : Core H s)
+    (hd : (upperWrite fuel s inp).1.diverged = false) :
+    Core H (upperWrite fuel s inp).1 ∧ (upperWrite fuel s inp).1.connected = s.connected ∧
+    H.cons (upperWrite fuel s inp).1.z = H.cons s.z ++ inp.take (upperWrite fuel s inp).2.toNat ∧
+    (upperWrite fuel s inp).2 ≤ (inp.length : Int) ∧
+    ((upperWrite fuel s inp).2 = (inp.length : Int) → H.cons (upperWrite fuel s inp).1.z = H.cons s.z ++ inp) ∧
+    (NoErr s → (upperWrite fuel s inp).1.error = s.error ∧ NoErr (upperWrite fuel s inp).1) := by
+  have hle : FlagsLe (compressionWrite fuel s inp 0).1 (upperWrite fuel s inp).1 := by
+    unfold upperWrite
+    simp only [writeMode_zero]
+    split
+    · exact ⟨by simp, by simp⟩
+    · exact FlagsLe.refl _
+  obtain ⟨c, _, cn, e, l, f, ne⟩ := compressionWrite_gen H fuel s inp hc (nodiv_of_le hle hd)
+  unfold upperWrite
+  simp only [writeMode_zero]
+  split
+  · rename_i hcond
+    refine ⟨⟨c.okz, c.stream, c.outLe⟩, cn, e, l, f, ?_⟩
+    intro hn
+    obtain ⟨_, _, e3⟩ := ne hn
+    have := e3 hcond.1
+    rw [hcond.2] at this
+    cases this
+  · exact ⟨c, cn, e, l, f, fun hn => ⟨(ne hn).1, (ne hn).2.1⟩⟩
+
+/-- the part of the queue the write loop still has to hand over -/
+def rest (q : List (Bytes × Nat)) : Bytes := (q.map fun e => e.1.drop e.2).flatten
+
+def Wf (q : List (Bytes × Nat)) : Prop := ∀ e ∈ q, e.2 ≤ e.1.length
+
+/-- the `while (sq)` loop under any schedule: what deflate consumed is exactly what the queue no
+    longer holds -/
+theorem sendLoop_gen (H : HDeflate C) (fuel : Nat) :
+    ∀ (q : List (Bytes × Nat)) (s : St C), Core H s → Wf q →
+      (sendLoop fuel s q).1.diverged = false →
+      Core H (sendLoop fuel s q).1 ∧ (sendLoop fuel s q).1.connected = s.connected ∧
+      Wf (sendLoop fuel s q).2 ∧
+      H.cons (sendLoop fuel s q).1.z ++ rest (sendLoop fuel s q).2 = H.cons s.z ++ rest q ∧
+      (NoErr s → (sendLoop fuel s q).1.error = s.error ∧ NoErr (sendLoop fuel s q).1) := by
+  intro q
+  induction q with
+  | nil =>
+    intro s hc _ _
+    refine ⟨hc, rfl, ?_, rfl, fun h => ⟨rfl, h⟩⟩
+    intro e he
+    cases he
+  | cons e tl ih =>
+    intro s hc hw hd
+    obtain ⟨d, w⟩ := e
+    have hwd : w ≤ d.length := hw (d, w) (by simp)
+    have hwtl : Wf tl := fun x hx => hw x (by simp [hx])
+    have hdu : (upperWrite fuel s (d.drop w)).1.diverged = false := by
+      refine nodiv_of_le ?_ hd
+      unfold sendLoop
+      simp only
+      split
+      · exact FlagsLe.refl _
+      · exact sendLoop_le fuel tl _
+    obtain ⟨c1, cn1, e1, l1, f1, ne1⟩ := upperWrite_gen H fuel s (d.drop w) hc hdu
+    have hlen : ((d.drop w).length : Int) = (d.length : Int) - (w : Int) := by
+      rw [List.length_drop]; omega
+    revert hd
+    unfold sendLoop
+    simp only
+    split
+    · rename_i hneq
+      intro _
+      rw [← hlen] at hneq
+      refine ⟨c1, cn1, ?_, ?_, ne1⟩
+      · intro x hx
+        simp only [List.mem_cons] at hx
+        cases hx with
+        | inl h =>
+          subst h
+          simp only
+          split
+          · rename_i hr
+            rw [← hlen] at hr
+            rw [List.length_drop] at hr
+            omega
+          · exact hwd
+        | inr h => exact hwtl x h
+      · simp only [rest, List.map_cons, List.flatten_cons]
+        rw [e1]
+        split
+        · rename_i hr
+          rw [List.append_assoc, ← List.append_assoc (List.take _ _)]
+          congr 1
+          congr 1
+          rw [← List.drop_drop, List.take_append_drop]
+        · rename_i hr
+          rw [← hlen] at hr
+          have : (upperWrite fuel s (d.drop w)).2.toNat = 0 := by omega
+          rw [this]
+          simp
+    · rename_i heq
+      intro hd
+      have heq' : (upperWrite fuel s (d.drop w)).2 = ((d.drop w).length : Int) := by
+        rw [hlen]; exact Decidable.of_not_not heq
+      obtain ⟨c2, cn2, w2, e2, ne2⟩ := ih _ c1 hwtl hd
+      refine ⟨c2, cn2.trans cn1, w2, ?_, ?_⟩
+      · rw [e2, f1 heq']
+        simp [rest, List.append_assoc]
+      · intro hn
+        obtain ⟨a, b⟩ := ne1 hn
+        obtain ⟨a2, b2⟩ := ne2 b
+        exact ⟨a2.trans a, b2⟩
+
+/-- invariant between the application's calls, whatever the lower transport did so far -/
+structure RunInv (H : HDeflate C) (s : St C) (sub : Bytes) : Prop where
+  okz : H.ok s.z
+  stream : s.net ++ s.out = H.prod s.z
+  outLe : s.out.length ≤ bufSize
+  wf : Wf s.queue
+  sub : H.cons s.z ++ rest s.queue = sub
+
+theorem init_inv (H : HDeflate C) (dr : Bool) : RunInv H (init C dr) [] :=
+  ⟨H.init_ok, by simp [init, H.init_prod], by simp [init], by simp [init, Wf],
+   by simp [init, H.init_cons, rest]⟩
+
+theorem runOnceSend_gen (H : HDeflate C) (fuel : Nat) (s : St C) (sub : Bytes) (hi : RunInv H s sub)
+    (hd : (runOnceSend fuel s).diverged = false) :
+    RunInv H (runOnceSend fuel s) sub ∧
+    (s.connected = true → s.error = 0 → NoErr s →
+      (runOnceSend fuel s).connected = true ∧ (runOnceSend fuel s).error = 0) := by
+  revert hd
+  unfold runOnceSend
+  split
+  · rename_i hnc
+    intro _
+    refine ⟨hi, ?_⟩
+    intro h; rw [h] at hnc; cases hnc
+  · rename_i hconn
+    have hconn' : s.connected = true := by simpa using hconn
+    simp only
+    have hcore : Core H s := ⟨hi.okz, hi.stream, hi.outLe⟩
+    have key : ∀ t, t = (compressionFlush fuel
+        { (sendLoop fuel s s.queue).1 with queue := (sendLoop fuel s s.queue).2 }).1 →
+        t.diverged = false →
+        RunInv H t sub ∧ t.connected = true ∧ (s.error = 0 → NoErr s → t.error = 0) := by
+      intro t ht hdt
+      have hle : FlagsLe (sendLoop fuel s s.queue).1 t := by
+        rw [ht]
+        exact FlagsLe.trans (t := { (sendLoop fuel s s.queue).1 with queue := (sendLoop fuel s s.queue).2 })
+          ⟨by simp, by simp⟩ (compressionFlush_le fuel _)
+      obtain ⟨c1, cn1, w1, e1, ne1⟩ := sendLoop_gen H fuel s.queue s hcore hi.wf (nodiv_of_le hle hdt)
+      have c1' : Core H { (sendLoop fuel s s.queue).1 with queue := (sendLoop fuel s s.queue).2 } :=
+        ⟨c1.okz, c1.stream, c1.outLe⟩
+      rw [ht] at hdt
+      obtain ⟨c2, q2, cn2, e2, ne2⟩ := compressionFlush_gen H fuel _ c1' hdt
+      rw [ht]
+      refine ⟨⟨c2.okz, c2.stream, c2.outLe, by rw [q2]; exact w1, ?_⟩, ?_, ?_⟩
+      · rw [e2, q2]
+        show H.cons (sendLoop fuel s s.queue).1.z ++ rest (sendLoop fuel s s.queue).2 = sub
+        rw [e1]; exact hi.sub
+      · rw [cn2]; show (sendLoop fuel s s.queue).1.connected = true; rw [cn1]; exact hconn'
+      · intro he hn
+        obtain ⟨a, b⟩ := ne1 hn
+        have := (ne2 b).1
+        rw [this]
+        show (sendLoop fuel s s.queue).1.error = 0
+        rw [a]; exact he
+    split
+    · rename_i herr
+      intro hd
+      have hd' : (compressionFlush fuel
+          { (sendLoop fuel s s.queue).1 with queue := (sendLoop fuel s s.queue).2 }).1.diverged = false := by
+        simpa [disconnect] using hd
+      obtain ⟨k1, _, k3⟩ := key _ rfl hd'
+      refine ⟨⟨k1.okz, k1.stream, k1.outLe, k1.wf, k1.sub⟩, ?_⟩
+      intro _ he hn
+      exact absurd (k3 he hn) herr
+    · rename_i herr
+      intro hd
+      obtain ⟨k1, k2, k3⟩ := key _ rfl hd
+      exact ⟨k1, fun _ he hn => ⟨k2, k3 he hn⟩⟩
+
+/-! ### whole histories -/
+
+theorem submitted_append (a b : List Op) : submitted (a ++ b) = submitted a ++ submitted b := by
+  induction a with
+  | nil => rfl
+  | cons op r ih => cases op <;> simp [submitted, ih]
+
+theorem runOp_inv (H : HDeflate C) (fuel : Nat) (s : St C) (sub : Bytes) (op : Op)
+    (hi : RunInv H s sub) (hg : Good (runOp fuel s op)) :
+    RunInv H (runOp fuel s op) (sub ++ submitted [op]) := by
+  have hgs : Good s := Good.of_le (runOp_le fuel s op) hg
+  cases op with
+  | send b =>
+    simp only [runOp, sendRaw, hgs.1, ↓reduceIte, submitted, List.append_nil]
+    refine ⟨hi.okz, hi.stream, hi.outLe, ?_, ?_⟩
+    · intro e he
+      simp only [List.mem_append, List.mem_singleton] at he
+      cases he with
+      | inl h => exact hi.wf e h
+      | inr h => rw [h]; simp
+    · simp only [rest, List.map_append, List.flatten_append, List.map_cons, List.map_nil,
+        List.flatten_cons, List.flatten_nil, List.append_nil, List.drop_zero]
+      rw [← List.append_assoc]
+      congr 1
+      exact hi.sub
+  | iter sc =>
+    have hi' : RunInv H { s with sched := sc } sub := ⟨hi.okz, hi.stream, hi.outLe, hi.wf, hi.sub⟩
+    simp only [runOp, submitted, List.append_nil]
+    exact (runOnceSend_gen H fuel _ sub hi' hg.2).1
+
+theorem run_inv (H : HDeflate C) (fuel : Nat) : ∀ (ops : List Op) (s : St C) (sub : Bytes),
+    RunInv H s sub → Good (run fuel s ops) → RunInv H (run fuel s ops) (sub ++ submitted ops) := by
+  intro ops
+  induction ops with
+  | nil => intro s sub hi _; simpa [run, submitted] using hi
+  | cons op tl ih =>
+    intro s sub hi hg
+    have hg1 : Good (runOp fuel s op) := Good.of_le (run_le fuel tl _) hg
+    have h1 := runOp_inv H fuel s sub op hi hg1
+    have h2 := ih (runOp fuel s op) _ h1 hg
+    have : submitted (op :: tl) = submitted [op] ++ submitted tl := submitted_append [op] tl
+    rw [this, ← List.append_assoc]
+    exact h2
+
+/-- safety under ANY schedule: whatever the server has received inflates to a prefix of the
+    submitted stream -/
+theorem write_safe (H : HDeflate C) (dr : Bool) (fuel : Nat) (ops : List Op)
+    (hg : Good (run fuel (init C dr) ops)) :
+    H.decode (run fuel (init C dr) ops).net <+: submitted ops := by
+  have hi := run_inv H fuel ops (init C dr) [] (init_inv H dr) hg
+  simp only [List.nil_append] at hi
+  have h1 : (run fuel (init C dr) ops).net <+: H.prod (run fuel (init C dr) ops).z := ⟨_, hi.stream⟩
+  exact (H.decode_prefix _ _ hi.okz h1).trans ⟨_, hi.sub⟩
+
+/-- no schedule without a hard error ever tears the connection down -/
+theorem no_spurious (H : HDeflate C) (fuel : Nat) : ∀ (ops : List Op) (s : St C) (sub : Bytes),
+    RunInv H s sub → s.connected = true → s.error = 0 →
+    (∀ op ∈ ops, ∀ sc, op = Op.iter sc → Accept.err ∉ sc) →
+    (run fuel s ops).diverged = false →
+    (run fuel s ops).connected = true := by
+  intro ops
+  induction ops with
+  | nil => intro s _ _ hc _ _ _; exact hc
+  | cons op tl ih =>
+    intro s sub hi hc he hsc hd
+    have hd1 : (runOp fuel s op).diverged = false := nodiv_of_le (run_le fuel tl _) hd
+    cases op with
+    | send b =>
+      have hg : Good (runOp fuel s (Op.send b)) := by
+        refine ⟨?_, hd1⟩
+        simp [runOp, sendRaw, hc]
+      have h1 := runOp_inv H fuel s sub _ hi hg
+      refine ih _ _ h1 hg.1 ?_ (fun o ho => hsc o (by simp [ho])) hd
+      simp [runOp, sendRaw, hc, he]
+    | iter sc =>
+      have hi' : RunInv H { s with sched := sc } sub := ⟨hi.okz, hi.stream, hi.outLe, hi.wf, hi.sub⟩
+      have hn : NoErr { s with sched := sc } := hsc (Op.iter sc) (by simp) sc rfl
+      obtain ⟨h1, h2⟩ := runOnceSend_gen H fuel _ sub hi' hd1
+      obtain ⟨k1, k2⟩ := h2 hc he hn
+      exact ih _ sub h1 k1 k2 (fun o ho => hsc o (by simp [ho])) hd
+
+/-! ### an iteration in which the lower transport accepts everything drains and flushes completely -/
+
+def AllAcc (s : St C) : Prop := ∀ a ∈ s.sched, a = Accept.all
 
 theorem popSched_all (l : List Accept) (h : ∀ a ∈ l, a = Accept.all) :
     (popSched l).1 = Accept.all ∧ ∀ a ∈ (popSched l).2, a = Accept.all := by
@@ -167,7 +754,7 @@ theorem popSched_all (l : List Accept) (h : ∀ a ∈ l, a = Accept.all) :
     intro x hx
     exact h x (by simp [popSched] at hx; simp [hx])
 
-theorem lowerWrite_all (s : St C) (b : Bytes) (h : ∀ a ∈ s.sched, a = Accept.all) :
+theorem lowerWrite_all (s : St C) (b : Bytes) (h : AllAcc s) :
     lowerWrite s b =
       ({ s with sched := (popSched s.sched).2, calls := s.calls ++ [(b.length, (b.length : Int))],
                 net := s.net ++ b }, (b.length : Int)) := by
@@ -176,25 +763,20 @@ theorem lowerWrite_all (s : St C) (b : Bytes) (h : ∀ a ∈ s.sched, a = Accept
   unfold lowerWrite
   simp only [hp, Accept.ret, hneg, false_and, if_false, Int.toNat_natCast, List.take_length]
 
-/-- facts about one `_try_compressed_write_to_network` -/
-theorem tryWrite_all (H : HDeflate C) (s : St C) (f : Bool) (hc : Core H s) :
-    Core H (tryWrite s f).1 ∧ 0 ≤ (tryWrite s f).2 ∧ (tryWrite s f).1.z = s.z ∧
-    (tryWrite s f).1.queue = s.queue ∧ (tryWrite s f).1.flushDone = s.flushDone ∧
-    (tryWrite s f).1.connected = s.connected ∧ (tryWrite s f).1.diverged = s.diverged ∧
+theorem tryWrite_all (H : HDeflate C) (s : St C) (f : Bool) (hc : Core H s) (ha : AllAcc s) :
+    AllAcc (tryWrite s f).1 ∧ 0 ≤ (tryWrite s f).2 ∧
     (f = false → (tryWrite s f).1.out.length < bufSize) ∧ (f = true → (tryWrite s f).1.out = []) := by
   unfold tryWrite
   simp only
   split
-  · rename_i hcond
-    rw [lowerWrite_all s s.out hc.allAcc]
+  · rw [lowerWrite_all s s.out ha]
     have hneg : ¬ ((s.out.length : Int) < 0) := by omega
-    simp only [hneg, if_false]
-    refine ⟨⟨hc.okz, ?_, by simp, (popSched_all _ hc.allAcc).2⟩, ?_⟩
-    · simpa using hc.stream
-    · have := bufSize_pos
-      simp; omega
+    simp only [hneg, if_false, Int.toNat_natCast, List.drop_length]
+    refine ⟨(popSched_all _ ha).2, by omega, ?_, ?_⟩
+    · intro _; simpa using bufSize_pos
+    · intro _; trivial
   · rename_i hcond
-    refine ⟨hc, by omega, rfl, rfl, rfl, rfl, rfl, ?_, ?_⟩
+    refine ⟨ha, by omega, ?_, ?_⟩
     · intro hf
       subst hf
       have hle := hc.outLe
@@ -213,422 +795,252 @@ theorem tryWrite_all (H : HDeflate C) (s : St C) (f : Bool) (hc : Core H s) :
       show s.out = []
       exact hcond
 
-/-- fields the staging functions never touch on their good paths -/
-def Frame (s t : St C) : Prop :=
-  t.queue = s.queue ∧ t.connected = s.connected ∧ t.diverged = s.diverged
-
-theorem Frame.trans {s t u : St C} (a : Frame s t) (b : Frame t u) : Frame s u :=
-  ⟨b.1.trans a.1, b.2.1.trans a.2.1, b.2.2.trans a.2.2⟩
-
-/-- the state after one deflate call keeps the core invariant -/
-theorem core_after_deflate (H : HDeflate C) (t : St C) (inp : Bytes) (fl : Int) (fd : Bool)
-    (hc : Core H t) :
-    Core H { t with z := (C.deflate t.z inp fl (bufSize - t.out.length)).1,
-                    out := t.out ++ (C.deflate t.z inp fl (bufSize - t.out.length)).2.2.1,
-                    flushDone := fd } := by
-  refine ⟨H.step_ok _ _ _ _ hc.okz, ?_, ?_, hc.allAcc⟩
-  · show t.net ++ (t.out ++ _) = _
-    rw [H.step_prod _ _ _ _ hc.okz, ← hc.stream, List.append_assoc]
-  · show (t.out ++ _).length ≤ bufSize
-    have h1 := H.produced_le t.z inp fl (bufSize - t.out.length) hc.okz
-    have h2 := hc.outLe
-    simp only [List.length_append]
-    omega
-
-theorem cwLoop_write (H : HDeflate C) : ∀ (fuel : Nat) (s : St C) (inp : Bytes) (k : Nat), Core H s →
-    (∀ s' r, cwLoop fuel s inp k 0 = .ret s' r → s'.connected = false) ∧
-    (∀ s' r, cwLoop fuel s inp k 0 = .done s' r →
-        Core H s' ∧ Frame s s' ∧ H.cons s'.z = H.cons s.z ++ inp ∧ r = ((k + inp.length : Nat) : Int)) := by
+theorem cwLoop_all (H : HDeflate C) : ∀ (fuel : Nat) (s : St C) (inp : Bytes) (k : Nat) (fl : Int),
+    Core H s → AllAcc s → (fl = 0 → inp ≠ []) →
+    (cwLoop fuel s inp k fl).isRet = false ∧ AllAcc (cwLoop fuel s inp k fl).st ∧
+    ((cwLoop fuel s inp k fl).isDone = true → fl ≠ 0 → inp = [] →
+      H.decode (H.prod (cwLoop fuel s inp k fl).st.z) = H.cons (cwLoop fuel s inp k fl).st.z) := by
   intro fuel
   induction fuel with
-  | zero => intro s inp k _; simp [cwLoop]
+  | zero => intro s inp k fl _ ha _; simp [cwLoop, LoopOut.isRet, LoopOut.isDone, LoopOut.st, ha]
   | succ fuel ih =>
-    intro s inp k hc
-    obtain ⟨htc, hnn, htz, htq, _, htconn, htdiv, htlt, _⟩ := tryWrite_all H s false hc
-    have hneg : ¬ (tryWrite s false).2 < 0 := by omega
-    have hfr : Frame s (tryWrite s false).1 := ⟨htq, htconn, htdiv⟩
-    have hcd := core_after_deflate H (tryWrite s false).1 inp 0
+    intro s inp k fl hc ha hne
+    obtain ⟨htc, htz, htq, htconn, htdiv, hterr⟩ := tryWrite_gen H s false hc
+    obtain ⟨hta, htnn, htlt, _⟩ := tryWrite_all H s false hc ha
+    have hlt := htlt rfl
+    have hnb : ¬ ((tryWrite s false).2 < 0 ∨ bufSize - (tryWrite s false).1.out.length = 0) := by
+      intro h; cases h with
+      | inl h => omega
+      | inr h => omega
+    have hroom : 0 < bufSize - (tryWrite s false).1.out.length := by omega
     have hok := htc.okz
-    have hcl := H.consumed_le (tryWrite s false).1.z inp 0 (bufSize - (tryWrite s false).1.out.length) hok
-    have hsc := H.step_cons (tryWrite s false).1.z inp 0 (bufSize - (tryWrite s false).1.out.length) hok
-    have hse := H.no_stream_end (tryWrite s false).1.z inp 0 (bufSize - (tryWrite s false).1.out.length) hok
+    have hcd := core_after_deflate H (tryWrite s false).1 inp fl htc
+    have hnoerr := H.no_error (tryWrite s false).1.z inp fl (bufSize - (tryWrite s false).1.out.length) hok
+    have hprog := H.progress (tryWrite s false).1.z inp fl (bufSize - (tryWrite s false).1.out.length) hok
+    have hsc := H.step_cons (tryWrite s false).1.z inp fl (bufSize - (tryWrite s false).1.out.length) hok
+    have hsp := H.step_prod (tryWrite s false).1.z inp fl (bufSize - (tryWrite s false).1.out.length) hok
+    have hbe := H.buf_error (tryWrite s false).1.z inp fl (bufSize - (tryWrite s false).1.out.length) hok
     unfold cwLoop
-    simp only [hneg, ↓reduceIte]
+    simp only [hnb, ↓reduceIte]
     split
-    · rename_i h; exact absurd h hse
+    · rename_i h
+      exfalso
+      cases hnoerr with
+      | inl h1 => rw [h1] at h; exact zOk_ne_streamEnd h
+      | inr h1 => rw [h1] at h; exact zBufError_ne_streamEnd h
     · split
-      · rename_i h; exact absurd rfl h.1
-      · split
-        · refine ⟨?_, ?_⟩
-          · intro s' r h
-            injection h with h1 _
-            rw [← h1]; rfl
-          · intro s' r h; cases h
-        · split
-          · rename_i hemp
-            refine ⟨fun s' r h => (by cases h), ?_⟩
-            intro s' r h
-            injection h with h1 h2
-            subst h1
-            have hn : (C.deflate (tryWrite s false).1.z inp 0 (bufSize - (tryWrite s false).1.out.length)).2.1 = inp.length := by
-              have : inp.length ≤ (C.deflate (tryWrite s false).1.z inp 0 (bufSize - (tryWrite s false).1.out.length)).2.1 := by
-                simpa [List.isEmpty_iff, List.drop_eq_nil_iff] using hemp
-              omega
-            refine ⟨hcd _ htc, hfr, ?_, ?_⟩
-            · show H.cons (C.deflate _ _ _ _).1 = _
-              rw [hsc, hn, List.take_length, htz]
-            · rw [← h2, hn]
-          · have hc1 := hcd (decide ((0:Int) ≠ 0) &&
-                ((C.deflate (tryWrite s false).1.z inp 0 (bufSize - (tryWrite s false).1.out.length)).2.2.2 == Gen.Zl.zOk &&
-                  decide ((C.deflate (tryWrite s false).1.z inp 0 (bufSize - (tryWrite s false).1.out.length)).2.2.1.length <
-                    bufSize - (tryWrite s false).1.out.length) ||
-                 (C.deflate (tryWrite s false).1.z inp 0 (bufSize - (tryWrite s false).1.out.length)).2.2.2 == Gen.Zl.zBufError)) htc
-            obtain ⟨ihr, ihd⟩ := ih _ (inp.drop (C.deflate (tryWrite s false).1.z inp 0 (bufSize - (tryWrite s false).1.out.length)).2.1)
-              (k + (C.deflate (tryWrite s false).1.z inp 0 (bufSize - (tryWrite s false).1.out.length)).2.1) hc1
-            refine ⟨ihr, ?_⟩
-            intro s' r h
-            obtain ⟨c1, f1, e1, r1⟩ := ihd s' r h
-            refine ⟨c1, hfr.trans f1, ?_, ?_⟩
-            · rw [e1]
-              show H.cons (C.deflate _ _ _ _).1 ++ _ = _
-              rw [hsc, htz, List.append_assoc, List.take_append_drop]
-            · rw [r1, List.length_drop]
-              congr 1
-              omega
-
-theorem cwLoop_flush (H : HDeflate C) (fuel : Nat) (s : St C) (fl : Int) (hfl : fl ≠ 0)
-    (hc : Core H s) :
-    (∀ s' r, cwLoop fuel s [] 0 fl = .ret s' r → s'.connected = false) ∧
-    (∀ s' r, cwLoop fuel s [] 0 fl = .done s' r →
-        Core H s' ∧ Frame s s' ∧ H.cons s'.z = H.cons s.z ∧
-        (s'.flushDone = true → H.decode (H.prod s'.z) = H.cons s'.z)) := by
-  cases fuel with
-  | zero => simp [cwLoop]
-  | succ fuel =>
-    obtain ⟨htc, hnn, htz, htq, _, htconn, htdiv, htlt, _⟩ := tryWrite_all H s false hc
-    have hneg : ¬ (tryWrite s false).2 < 0 := by omega
-    have hfr : Frame s (tryWrite s false).1 := ⟨htq, htconn, htdiv⟩
-    have hcd := core_after_deflate H (tryWrite s false).1 [] fl
-    have hok := htc.okz
-    have hroom : 0 < bufSize - (tryWrite s false).1.out.length := by have := htlt rfl; omega
-    have hsc := H.step_cons (tryWrite s false).1.z [] fl (bufSize - (tryWrite s false).1.out.length) hok
-    have hsp := H.step_prod (tryWrite s false).1.z [] fl (bufSize - (tryWrite s false).1.out.length) hok
-    have hse := H.no_stream_end (tryWrite s false).1.z [] fl (bufSize - (tryWrite s false).1.out.length) hok
-    have hfc := H.flush_complete (tryWrite s false).1.z [] fl (bufSize - (tryWrite s false).1.out.length) hok hfl
-    have hbe := H.buf_error (tryWrite s false).1.z [] fl (bufSize - (tryWrite s false).1.out.length) hok
-    have hfb := H.flush_buf_error (tryWrite s false).1.z fl (bufSize - (tryWrite s false).1.out.length) hok hfl hroom
-    have hcons : H.cons (C.deflate (tryWrite s false).1.z [] fl (bufSize - (tryWrite s false).1.out.length)).1 = H.cons s.z := by
-      rw [hsc, htz]; simp
-    unfold cwLoop
-    simp only [hneg, ↓reduceIte]
-    split
-    · rename_i h; exact absurd h hse
-    · split
-      · rename_i h
-        refine ⟨fun s' r h => (by cases h), ?_⟩
-        intro s' r h'
-        injection h' with h1 _
-        subst h1
-        refine ⟨hcd _ htc, hfr, hcons, ?_⟩
-        intro _
+      · rename_i hbe'
+        refine ⟨rfl, hta, ?_⟩
+        intro _ hfl hinp
+        subst hinp
+        have hfb := H.flush_buf_error (tryWrite s false).1.z fl (bufSize - (tryWrite s false).1.out.length) hok hfl hroom hbe'.2
         show H.decode (H.prod (C.deflate _ _ _ _).1) = H.cons (C.deflate _ _ _ _).1
-        rw [hsp, hsc, (hbe h.2).1, (hbe h.2).2]
-        simpa using hfb h.2
+        rw [hsp, hsc, (hbe hbe'.2).1, (hbe hbe'.2).2]
+        simpa using hfb
       · split
-        · refine ⟨?_, fun s' r h => (by cases h)⟩
-          intro s' r h
-          injection h with h1 _
-          rw [← h1]; rfl
-        · rename_i hnb hok'
-          have hrc : (C.deflate (tryWrite s false).1.z [] fl (bufSize - (tryWrite s false).1.out.length)).2.2.2 = Gen.Zl.zOk := by
-            simpa using hok'
+        · rename_i hnbe hnok
+          exfalso
+          cases hnoerr with
+          | inl h1 => exact hnok h1
+          | inr h1 =>
+            have hfl0 : fl = 0 := by
+              by_cases h0 : fl = 0
+              · exact h0
+              · exact absurd ⟨h0, h1⟩ hnbe
+            exact hprog (hne hfl0) hroom h1
+        · rename_i hnbe hok'
+          have hrc : (C.deflate (tryWrite s false).1.z inp fl (bufSize - (tryWrite s false).1.out.length)).2.2.2 = Gen.Zl.zOk :=
+            Decidable.of_not_not hok'
           split
-          · refine ⟨fun s' r h => (by cases h), ?_⟩
-            intro s' r h
-            injection h with h1 _
-            subst h1
-            refine ⟨hcd _ htc, hfr, hcons, ?_⟩
-            intro hfd
-            show H.decode (H.prod (C.deflate _ _ _ _).1) = H.cons (C.deflate _ _ _ _).1
-            apply hfc hrc
-            have hne : (Gen.Zl.zOk == Gen.Zl.zBufError) = false := by decide
-            simp only [hrc, hne, Bool.or_false, Bool.and_eq_true, decide_eq_true_eq, beq_self_eq_true, true_and] at hfd
-            exact hfd.2
-          · rename_i hne
-            simp at hne
+          · rename_i hexit
+            refine ⟨rfl, hta, ?_⟩
+            intro _ hfl _
+            have hr2 : ¬ (bufSize - ((tryWrite s false).1.out ++
+                (C.deflate (tryWrite s false).1.z inp fl (bufSize - (tryWrite s false).1.out.length)).2.2.1).length = 0) :=
+              fun h => hexit.2 ⟨hfl, h⟩
+            have hpl := H.produced_le (tryWrite s false).1.z inp fl (bufSize - (tryWrite s false).1.out.length) hok
+            have : (C.deflate (tryWrite s false).1.z inp fl (bufSize - (tryWrite s false).1.out.length)).2.2.1.length <
+                bufSize - (tryWrite s false).1.out.length := by
+              simp only [List.length_append] at hr2
+              omega
+            exact H.flush_complete _ _ _ _ hok hfl hrc this
+          · have hne' : fl = 0 → inp.drop (C.deflate (tryWrite s false).1.z inp fl (bufSize - (tryWrite s false).1.out.length)).2.1 ≠ [] := by
+              rename_i hnexit
+              intro h0 hemp
+              apply hnexit
+              exact ⟨by simp [hemp], fun h => h.1 h0⟩
+            obtain ⟨i1, i2, i3⟩ := ih _ (inp.drop (C.deflate (tryWrite s false).1.z inp fl (bufSize - (tryWrite s false).1.out.length)).2.1)
+              (k + (C.deflate (tryWrite s false).1.z inp fl (bufSize - (tryWrite s false).1.out.length)).2.1) fl hcd hta hne'
+            refine ⟨i1, i2, ?_⟩
+            intro hd hfl hinp
+            exact i3 hd hfl (by rw [hinp]; simp)
 
-theorem writeMode_zero : Gen.Zl.compressionWriteMode = 0 := by decide
-theorem flushMode_ne_zero (b : Bool) :
-    (if b then Gen.Zl.compressionFlushModeDontReset else Gen.Zl.compressionFlushModeReset) ≠ 0 := by
-  cases b <;> decide
-
-/-- compression_write on an all-accepting transport: either the connection is gone, or the whole
-    element was consumed by deflate and nothing staged was lost -/
-theorem compressionWrite_write (H : HDeflate C) (fuel : Nat) (s : St C) (inp : Bytes) (hc : Core H s)
-    (hg : Good (compressionWrite fuel s inp 0).1) :
-    Core H (compressionWrite fuel s inp 0).1 ∧ Frame s (compressionWrite fuel s inp 0).1 ∧
-    H.cons (compressionWrite fuel s inp 0).1.z = H.cons s.z ++ inp ∧
-    (compressionWrite fuel s inp 0).2 = (inp.length : Int) := by
-  obtain ⟨hret, hdone⟩ := cwLoop_write H fuel s inp 0 hc
-  revert hg
-  unfold compressionWrite
-  split
-  · rename_i s' r heq
-    intro hg
-    have := hret s' r heq
-    rw [hg.1] at this; cases this
-  · intro hg; have := hg.2; simp at this
-  · rename_i s' r heq
-    intro _
-    obtain ⟨c, f, e, hr⟩ := hdone s' r heq
-    simp only [ne_eq, not_true_eq_false, ↓reduceIte]
-    exact ⟨c, f, e, by simpa using hr⟩
-
-theorem compressionFlush_ok (H : HDeflate C) (fuel : Nat) (s : St C) (hc : Core H s)
-    (hg : Good (compressionFlush fuel s).1) :
-    Core H (compressionFlush fuel s).1 ∧ Frame s (compressionFlush fuel s).1 ∧
-    H.cons (compressionFlush fuel s).1.z = H.cons s.z ∧ (compressionFlush fuel s).1.out = [] ∧
-    ((compressionFlush fuel s).1.flushDone = true →
-      H.decode (compressionFlush fuel s).1.net = H.cons (compressionFlush fuel s).1.z) := by
+theorem compressionFlush_all (H : HDeflate C) (fuel : Nat) (s : St C) (hc : Core H s) (ha : AllAcc s)
+    (hd : (compressionFlush fuel s).1.diverged = false) :
+    (compressionFlush fuel s).1.out = [] ∧
+    H.decode (compressionFlush fuel s).1.net = H.cons (compressionFlush fuel s).1.z := by
   have hfl := flushMode_ne_zero s.dontReset
-  obtain ⟨hret, hdone⟩ := cwLoop_flush H fuel s _ hfl hc
-  revert hg
+  have hp := cwLoop_gen H fuel s [] 0 _ hc (fun h => absurd h hfl)
+  obtain ⟨hr, hacc, hcomp⟩ := cwLoop_all H fuel s [] 0 _ hc ha (fun h => absurd h hfl)
+  revert hd
   unfold compressionFlush compressionWrite
+  have hcond : ¬ (([] : Bytes).isEmpty = true ∧
+      (if s.dontReset then Gen.Zl.compressionFlushModeDontReset else Gen.Zl.compressionFlushModeReset) = 0) :=
+    fun h => hfl h.2
+  simp only [hcond, ↓reduceIte]
   split
   · rename_i s' r heq
-    intro hg
-    have := hret s' r heq
-    rw [hg.1] at this; cases this
-  · intro hg; have := hg.2; simp at this
+    rw [heq] at hr; simp [LoopOut.isRet] at hr
+  · intro hd; simp at hd
   · rename_i s' r heq
+    rw [heq] at hp hacc hcomp
     intro _
-    obtain ⟨c, f, e, hd⟩ := hdone s' r heq
+    simp only [LoopOut.st] at hp hacc hcomp
     simp only [hfl, ne_eq, not_false_eq_true, ↓reduceIte]
-    obtain ⟨tc, _, tz, tq, tfd, tconn, tdiv, _, tout⟩ := tryWrite_all H s' true c
-    refine ⟨tc, f.trans ⟨tq, tconn, tdiv⟩, by rw [tz, e], tout rfl, ?_⟩
-    intro hfd
+    obtain ⟨tc, tz, _, _, _, _⟩ := tryWrite_gen H s' true hp.core
+    obtain ⟨_, _, _, tout⟩ := tryWrite_all H s' true hp.core hacc
+    refine ⟨tout rfl, ?_⟩
     have hs := tc.stream
     rw [tout rfl, List.append_nil] at hs
     rw [hs, tz]
-    exact hd (by rw [← tfd]; exact hfd)
+    exact hcomp rfl hfl trivial
 
-theorem upperWrite_ok (H : HDeflate C) (fuel : Nat) (s : St C) (inp : Bytes) (hc : Core H s)
-    (hg : Good (upperWrite fuel s inp).1) :
-    Core H (upperWrite fuel s inp).1 ∧ Frame s (upperWrite fuel s inp).1 ∧
-    H.cons (upperWrite fuel s inp).1.z = H.cons s.z ++ inp ∧
-    (upperWrite fuel s inp).2 = (inp.length : Int) := by
+theorem upperWrite_all (H : HDeflate C) (fuel : Nat) (s : St C) (inp : Bytes) (hc : Core H s)
+    (ha : AllAcc s) (hd : (upperWrite fuel s inp).1.diverged = false) :
+    (upperWrite fuel s inp).2 = (inp.length : Int) ∧ AllAcc (upperWrite fuel s inp).1 := by
+  have key : (compressionWrite fuel s inp 0).1.diverged = false →
+      (compressionWrite fuel s inp 0).2 = (inp.length : Int) ∧ AllAcc (compressionWrite fuel s inp 0).1 := by
+    unfold compressionWrite
+    split
+    · rename_i hemp
+      intro _
+      have : inp = [] := List.isEmpty_iff.mp hemp.1
+      subst this
+      exact ⟨rfl, ha⟩
+    · rename_i hnemp
+      have hne : (0 : Int) = 0 → inp ≠ [] := by
+        intro _ h
+        apply hnemp
+        exact ⟨by simp [h], rfl⟩
+      have hp := cwLoop_gen H fuel s inp 0 0 hc hne
+      obtain ⟨hr, hacc, _⟩ := cwLoop_all H fuel s inp 0 0 hc ha hne
+      obtain ⟨m, hm, hcm, hval, hdone⟩ := hp.cons
+      split
+      · rename_i s' r heq
+        rw [heq] at hr; simp [LoopOut.isRet] at hr
+      · intro hd; simp at hd
+      · rename_i s' r heq
+        rw [heq] at hacc hval hdone
+        intro _
+        obtain ⟨a, b⟩ := hval rfl r rfl
+        have hml := hdone rfl rfl
+        simp only [ne_eq, not_true_eq_false, ↓reduceIte]
+        refine ⟨?_, hacc⟩
+        have hpos : 0 < inp.length := List.length_pos_iff.mpr (hne rfl)
+        omega
   have hle : FlagsLe (compressionWrite fuel s inp 0).1 (upperWrite fuel s inp).1 := by
     unfold upperWrite
     simp only [writeMode_zero]
     split
     · exact ⟨by simp, by simp⟩
     · exact FlagsLe.refl _
-  have h := compressionWrite_write H fuel s inp hc (Good.of_le hle hg)
-  have hneg : ¬ ((compressionWrite fuel s inp 0).2 < 0) := by rw [h.2.2.2]; omega
+  obtain ⟨k1, k2⟩ := key (nodiv_of_le hle hd)
+  have hneg : ¬ ((compressionWrite fuel s inp 0).2 < 0) := by rw [k1]; omega
   unfold upperWrite
   simp only [writeMode_zero, hneg, false_and, ↓reduceIte]
-  exact h
+  exact ⟨k1, k2⟩
 
-/-- the `while (sq)` loop on an all-accepting transport: the whole queue goes through deflate -/
-theorem sendLoop_ok (H : HDeflate C) (fuel : Nat) :
-    ∀ (q : List (Bytes × Nat)) (s : St C), Core H s → (∀ e ∈ q, e.2 = 0) →
-      Good (sendLoop fuel s q).1 →
-      Core H (sendLoop fuel s q).1 ∧ Frame s (sendLoop fuel s q).1 ∧ (sendLoop fuel s q).2 = [] ∧
-      H.cons (sendLoop fuel s q).1.z = H.cons s.z ++ (q.map (·.1)).flatten := by
+theorem sendLoop_all (H : HDeflate C) (fuel : Nat) :
+    ∀ (q : List (Bytes × Nat)) (s : St C), Core H s → AllAcc s → Wf q →
+      (sendLoop fuel s q).1.diverged = false →
+      (sendLoop fuel s q).2 = [] ∧ AllAcc (sendLoop fuel s q).1 := by
   intro q
   induction q with
-  | nil =>
-    intro s hc _ _
-    simp [sendLoop, hc, Frame]
-  | cons e rest ih =>
-    intro s hc hw hg
+  | nil => intro s _ ha _ _; exact ⟨rfl, ha⟩
+  | cons e tl ih =>
+    intro s hc ha hw hd
     obtain ⟨d, w⟩ := e
-    have hw0 : w = 0 := hw (d, w) (by simp)
-    subst hw0
-    have hgu : Good (upperWrite fuel s (d.drop 0)).1 := by
-      refine Good.of_le ?_ hg
+    have hwd : w ≤ d.length := hw (d, w) (by simp)
+    have hdu : (upperWrite fuel s (d.drop w)).1.diverged = false := by
+      refine nodiv_of_le ?_ hd
       unfold sendLoop
       simp only
       split
       · exact FlagsLe.refl _
-      · exact sendLoop_le fuel rest _
-    obtain ⟨c1, f1, e1, r1⟩ := upperWrite_ok H fuel s (d.drop 0) hc hgu
-    have hr : (upperWrite fuel s (d.drop 0)).2 = ((d.length : Int) - ((0 : Nat) : Int)) := by
-      rw [r1]; simp
-    revert hg
+      · exact sendLoop_le fuel tl _
+    obtain ⟨c1, _, _, _, _, _⟩ := upperWrite_gen H fuel s (d.drop w) hc hdu
+    obtain ⟨r1, a1⟩ := upperWrite_all H fuel s (d.drop w) hc ha hdu
+    have hlen : ((d.drop w).length : Int) = (d.length : Int) - (w : Int) := by
+      rw [List.length_drop]; omega
+    revert hd
     unfold sendLoop
-    simp only [hr, ne_eq, not_true_eq_false, ↓reduceIte]
-    intro hg
-    obtain ⟨c2, f2, q2, e2⟩ := ih _ c1 (fun x hx => hw x (by simp [hx])) hg
-    refine ⟨c2, f1.trans f2, q2, ?_⟩
-    rw [e2, e1]
-    simp
+    simp only [r1, hlen, ne_eq, not_true_eq_false, ↓reduceIte]
+    intro hd
+    exact ih _ c1 a1 (fun x hx => hw x (by simp [hx])) hd
 
-theorem runOnceSend_ok (H : HDeflate C) (fuel : Nat) (s : St C) (hc : Core H s)
-    (hq : ∀ e ∈ s.queue, e.2 = 0) (hg : Good (runOnceSend fuel s)) :
-    Core H (runOnceSend fuel s) ∧ (runOnceSend fuel s).queue = [] ∧
-    H.cons (runOnceSend fuel s).z = H.cons s.z ++ (s.queue.map (·.1)).flatten ∧
-    (runOnceSend fuel s).out = [] ∧
-    ((runOnceSend fuel s).flushDone = true →
-      H.decode (runOnceSend fuel s).net = H.cons (runOnceSend fuel s).z) := by
+theorem runOnceSend_all (H : HDeflate C) (fuel : Nat) (s : St C) (sub : Bytes) (hi : RunInv H s sub)
+    (ha : AllAcc s) (hg : Good (runOnceSend fuel s)) :
+    (runOnceSend fuel s).queue = [] ∧ H.decode (runOnceSend fuel s).net = sub := by
   have hconn : s.connected = true := (Good.of_le (runOnceSend_le fuel s) hg).1
-  revert hg
+  obtain ⟨hinv, _⟩ := runOnceSend_gen H fuel s sub hi hg.2
+  have hcore : Core H s := ⟨hi.okz, hi.stream, hi.outLe⟩
+  revert hg hinv
   unfold runOnceSend
   simp only [hconn, Bool.true_eq_false, ↓reduceIte]
   split
   · intro hg; have := hg.1; simp [disconnect] at this
-  · intro hg
-    have hgs : Good (sendLoop fuel s s.queue).1 := by
-      have h1 : FlagsLe (sendLoop fuel s s.queue).1
-          { (sendLoop fuel s s.queue).1 with queue := (sendLoop fuel s s.queue).2 } := ⟨by simp, by simp⟩
-      exact Good.of_le (h1.trans (compressionFlush_le fuel _)) hg
-    obtain ⟨c1, _, q1, e1⟩ := sendLoop_ok H fuel s.queue s hc hq hgs
+  · intro hg hinv
+    have hle : FlagsLe (sendLoop fuel s s.queue).1 (compressionFlush fuel
+        { (sendLoop fuel s s.queue).1 with queue := (sendLoop fuel s s.queue).2 }).1 :=
+      FlagsLe.trans (t := { (sendLoop fuel s s.queue).1 with queue := (sendLoop fuel s s.queue).2 })
+        ⟨by simp, by simp⟩ (compressionFlush_le fuel _)
+    have hds := nodiv_of_le hle hg.2
+    obtain ⟨c1, _, _, _, _⟩ := sendLoop_gen H fuel s.queue s hcore hi.wf hds
+    obtain ⟨q1, a1⟩ := sendLoop_all H fuel s.queue s hcore ha hi.wf hds
     have c1' : Core H { (sendLoop fuel s s.queue).1 with queue := (sendLoop fuel s s.queue).2 } :=
-      ⟨c1.okz, c1.stream, c1.outLe, c1.allAcc⟩
-    obtain ⟨c2, f2, e2, o2, d2⟩ := compressionFlush_ok H fuel _ c1' hg
-    refine ⟨c2, ?_, ?_, o2, d2⟩
-    · rw [f2.1]; exact q1
-    · rw [e2]; exact e1
+      ⟨c1.okz, c1.stream, c1.outLe⟩
+    obtain ⟨_, q2, _, _, _⟩ := compressionFlush_gen H fuel _ c1' hg.2
+    obtain ⟨_, d2⟩ := compressionFlush_all H fuel _ c1' a1 hg.2
+    have hq : (compressionFlush fuel
+        { (sendLoop fuel s s.queue).1 with queue := (sendLoop fuel s s.queue).2 }).1.queue = [] := by
+      rw [q2]; exact q1
+    refine ⟨hq, ?_⟩
+    rw [d2]
+    have := hinv.sub
+    rw [hq] at this
+    simpa [rest] using this
 
-/-! ### whole histories -/
-
-theorem submitted_append (a b : List Op) : submitted (a ++ b) = submitted a ++ submitted b := by
-  induction a with
-  | nil => rfl
-  | cons op r ih => cases op <;> simp [submitted, ih]
-
-/-- invariant between the application's calls, for histories on an all-accepting transport -/
-structure RunInv (H : HDeflate C) (s : St C) (sub : Bytes) : Prop where
-  okz : H.ok s.z
-  stream : s.net ++ s.out = H.prod s.z
-  outLe : s.out.length ≤ bufSize
-  written0 : ∀ e ∈ s.queue, e.2 = 0
-  sub : H.cons s.z ++ (s.queue.map (·.1)).flatten = sub
-
-theorem init_inv (H : HDeflate C) (dr : Bool) : RunInv H (init C dr) [] :=
-  ⟨H.init_ok, by simp [init, H.init_prod], by simp [init], by simp [init], by simp [init, H.init_cons]⟩
-
-theorem runOp_inv (H : HDeflate C) (fuel : Nat) (s : St C) (sub : Bytes) (op : Op)
-    (hi : RunInv H s sub) (ha : op.allAccept) (hg : Good (runOp fuel s op)) :
-    RunInv H (runOp fuel s op) (sub ++ submitted [op]) := by
-  have hgs : Good s := Good.of_le (runOp_le fuel s op) hg
-  cases op with
-  | send b =>
-    simp only [runOp, sendRaw, hgs.1, ↓reduceIte, submitted, List.append_nil]
-    refine ⟨hi.okz, hi.stream, hi.outLe, ?_, ?_⟩
-    · intro e he
-      simp only [List.mem_append, List.mem_singleton] at he
-      cases he with
-      | inl h => exact hi.written0 e h
-      | inr h => rw [h]
-    · simp only [List.map_append, List.flatten_append, List.map_cons, List.map_nil,
-        List.flatten_cons, List.flatten_nil, List.append_nil]
-      rw [← List.append_assoc, hi.sub]
-  | iter sc =>
-    have hc : Core H { s with sched := sc } := ⟨hi.okz, hi.stream, hi.outLe, ha⟩
-    obtain ⟨c, q, e, _, _⟩ := runOnceSend_ok H fuel { s with sched := sc } hc hi.written0 hg
-    simp only [runOp, submitted, List.append_nil]
-    refine ⟨c.okz, c.stream, c.outLe, by rw [q]; simp, ?_⟩
-    rw [q, e]
-    simpa using hi.sub
-
-theorem run_inv (H : HDeflate C) (fuel : Nat) : ∀ (ops : List Op) (s : St C) (sub : Bytes),
-    RunInv H s sub → (∀ op ∈ ops, op.allAccept) → Good (run fuel s ops) →
-    RunInv H (run fuel s ops) (sub ++ submitted ops) := by
-  intro ops
-  induction ops with
-  | nil => intro s sub hi _ _; simpa [run, submitted] using hi
-  | cons op rest ih =>
-    intro s sub hi ha hg
-    have hg1 : Good (runOp fuel s op) := Good.of_le (run_le fuel rest _) hg
-    have h1 := runOp_inv H fuel s sub op hi (ha op (by simp)) hg1
-    have h2 := ih (runOp fuel s op) _ h1 (fun o ho => ha o (by simp [ho])) hg
-    have : submitted (op :: rest) = submitted [op] ++ submitted rest := submitted_append [op] rest
-    rw [this, ← List.append_assoc]
-    exact h2
-
-/-- safety on an all-accepting transport: whatever the server has received inflates to a prefix
-    of the submitted stream -/
-theorem write_safe (H : HDeflate C) (dr : Bool) (fuel : Nat) (ops : List Op)
-    (hall : ∀ op ∈ ops, op.allAccept) (hg : Good (run fuel (init C dr) ops)) :
-    H.decode (run fuel (init C dr) ops).net <+: submitted ops := by
-  have hi := run_inv H fuel ops (init C dr) [] (init_inv H dr) hall hg
-  simp only [List.nil_append] at hi
-  have h1 : (run fuel (init C dr) ops).net <+: H.prod (run fuel (init C dr) ops).z :=
-    ⟨_, hi.stream⟩
-  have h2 := H.decode_prefix _ _ hi.okz h1
-  exact h2.trans ⟨_, hi.sub⟩
-
-/-- completeness: at the end of an iteration whose flush completed, the server has everything -/
+/-- completeness: at the end of an iteration in which the lower transport accepted what it was
+    offered, the server has everything that was ever submitted — whatever happened before -/
 theorem write_complete (H : HDeflate C) (dr : Bool) (fuel : Nat) (pre : List Op) (sc : List Accept)
-    (hall : ∀ op ∈ pre ++ [Op.iter sc], op.allAccept)
-    (hg : Good (run fuel (init C dr) (pre ++ [Op.iter sc])))
-    (hfd : (run fuel (init C dr) (pre ++ [Op.iter sc])).flushDone = true) :
+    (hall : ∀ a ∈ sc, a = Accept.all)
+    (hg : Good (run fuel (init C dr) (pre ++ [Op.iter sc]))) :
     H.decode (run fuel (init C dr) (pre ++ [Op.iter sc])).net = submitted (pre ++ [Op.iter sc]) ∧
     (run fuel (init C dr) (pre ++ [Op.iter sc])).queue = [] := by
   have hrun : run fuel (init C dr) (pre ++ [Op.iter sc]) =
       runOnceSend fuel { run fuel (init C dr) pre with sched := sc } := by
     simp [run, List.foldl_append, runOp]
-  rw [hrun] at hg hfd ⊢
+  rw [hrun] at hg ⊢
   have hg1 : Good (run fuel (init C dr) pre) :=
     Good.of_le (FlagsLe.trans (t := { run fuel (init C dr) pre with sched := sc }) ⟨by simp, by simp⟩
       (runOnceSend_le fuel _)) hg
-  have hi := run_inv H fuel pre (init C dr) [] (init_inv H dr)
-    (fun o ho => hall o (by simp [ho])) hg1
+  have hi := run_inv H fuel pre (init C dr) [] (init_inv H dr) hg1
   simp only [List.nil_append] at hi
-  have hc : Core H { run fuel (init C dr) pre with sched := sc } :=
-    ⟨hi.okz, hi.stream, hi.outLe, hall (Op.iter sc) (by simp)⟩
-  obtain ⟨_, q, e, _, d⟩ := runOnceSend_ok H fuel _ hc hi.written0 hg
+  have hi' : RunInv H { run fuel (init C dr) pre with sched := sc } (submitted pre) :=
+    ⟨hi.okz, hi.stream, hi.outLe, hi.wf, hi.sub⟩
+  obtain ⟨q, d⟩ := runOnceSend_all H fuel _ _ hi' hall hg
   refine ⟨?_, q⟩
-  rw [d hfd, e, submitted_append]
-  simpa [submitted] using hi.sub
+  rw [d, submitted_append]
+  simp [submitted]
 
-/-! ### read path -/
-
-theorem connDecompress_le (s : St C) (fresh : Bytes) (len : Nat) :
-    FlagsLe s (connDecompress s fresh len).1 := by
-  unfold connDecompress
-  simp only
-  split
-  · exact ⟨by simp, by simp⟩
-  · split
-    · exact ⟨by simp, by simp⟩
-    · exact ⟨by simp [disconnect], by simp [disconnect]⟩
-
-theorem lowerRead_flags (s : St C) (len : Nat) :
-    (lowerRead s len).1.connected = s.connected ∧ (lowerRead s len).1.diverged = s.diverged := by
-  unfold lowerRead
-  split
-  · split <;> exact ⟨rfl, rfl⟩
-  · exact ⟨rfl, rfl⟩
-
-theorem compressionRead_le (s : St C) (len : Nat) : FlagsLe s (compressionRead s len).1 := by
-  unfold compressionRead
-  split
-  · exact connDecompress_le _ _ _
-  · have h := lowerRead_flags s bufSize
-    have hle : FlagsLe s (lowerRead s bufSize).1 :=
-      ⟨fun x => by rw [← h.1]; exact x, fun x => by rw [h.2]; exact x⟩
-    simp only
-    split
-    · exact hle.trans (connDecompress_le _ _ _)
-    · exact hle
-
-theorem evRead_le (s : St C) : FlagsLe s (evRead s).1 := by
-  have h := compressionRead_le s msgBufSize
-  unfold evRead
-  simp only
-  split
-  · exact h
-  · split
-    · exact h.trans ⟨by simp [disconnect], by simp [disconnect]⟩
-    · exact h.trans ⟨by simp [disconnect], by simp [disconnect]⟩
-
-/-! the send half never touches the read side -/
+/-! ### the two directions do not touch each other's fields -/
 
 /-- the fields of the read path -/
-def rd (s : St C) : C.I × Option Bytes × Bytes × Bool × Bool :=
-  (s.zi, s.inPend, s.inq, s.inEof, s.readDone)
+def rd (s : St C) : C.I × Option Bytes × Bytes × Bool := (s.zi, s.inPend, s.inq, s.inEof)
+
+/-- the fields of the write path -/
+def wr (s : St C) : C.D × Bytes × List (Bytes × Nat) × List Accept × Bytes × List (Nat × Int) :=
+  (s.z, s.out, s.queue, s.sched, s.net, s.calls)
 
 theorem lowerWrite_rd (s : St C) (b : Bytes) : rd (lowerWrite s b).1 = rd s := by
   unfold lowerWrite
@@ -671,12 +1083,14 @@ theorem compressionWrite_rd (fuel : Nat) (s : St C) (inp : Bytes) (fl : Int) :
   have h := cwLoop_rd fuel s inp 0 fl
   unfold compressionWrite
   split
-  · rename_i s' r heq; rw [heq] at h; exact h
-  · rename_i s' heq; rw [heq] at h; exact h
-  · rename_i s' r heq; rw [heq] at h
-    split
-    · exact (tryWrite_rd _ _).trans h
-    · exact h
+  · rfl
+  · split
+    · rename_i s' r heq; rw [heq] at h; exact h
+    · rename_i s' heq; rw [heq] at h; exact h
+    · rename_i s' r heq; rw [heq] at h
+      split
+      · exact (tryWrite_rd _ _).trans h
+      · exact h
 
 theorem upperWrite_rd (fuel : Nat) (s : St C) (inp : Bytes) : rd (upperWrite fuel s inp).1 = rd s := by
   have h := compressionWrite_rd fuel s inp Gen.Zl.compressionWriteMode
@@ -690,7 +1104,7 @@ theorem sendLoop_rd (fuel : Nat) : ∀ (q : List (Bytes × Nat)) (s : St C), rd 
   intro q
   induction q with
   | nil => intro s; rfl
-  | cons e rest ih =>
+  | cons e tl ih =>
     intro s
     obtain ⟨d, w⟩ := e
     unfold sendLoop
@@ -713,6 +1127,117 @@ theorem runOnceSend_rd (fuel : Nat) (s : St C) : rd (runOnceSend fuel s) = rd s 
     · exact h3
     · exact h3
 
+theorem lowerRead_wr (s : St C) (len : Nat) :
+    wr (lowerRead s len).1 = wr s ∧ (lowerRead s len).1.error = s.error ∧
+    (lowerRead s len).1.connected = s.connected ∧ (lowerRead s len).1.diverged = s.diverged := by
+  unfold lowerRead
+  split
+  · split <;> exact ⟨rfl, rfl, rfl, rfl⟩
+  · exact ⟨rfl, rfl, rfl, rfl⟩
+
+theorem connDecompress_wr (s : St C) (fresh : Bytes) (len : Nat) :
+    wr (connDecompress s fresh len).1 = wr s := by
+  unfold connDecompress
+  simp only
+  split
+  · rfl
+  · split <;> rfl
+
+theorem compressionRead_wr : ∀ (fuel : Nat) (s : St C) (len : Nat),
+    wr (compressionRead fuel s len).1 = wr s := by
+  intro fuel
+  induction fuel with
+  | zero => intro s len; rfl
+  | succ fuel ih =>
+    intro s len
+    unfold compressionRead
+    split
+    · simp only
+      split
+      · exact connDecompress_wr _ _ _
+      · exact (ih _ _).trans (connDecompress_wr _ _ _)
+    · simp only
+      split
+      · exact (lowerRead_wr s bufSize).1
+      · split
+        · exact (connDecompress_wr _ _ _).trans (lowerRead_wr s bufSize).1
+        · exact (ih _ _).trans ((connDecompress_wr _ _ _).trans (lowerRead_wr s bufSize).1)
+
+theorem evRead_wr (fuel : Nat) (s : St C) : wr (evRead fuel s).1 = wr s := by
+  have h := compressionRead_wr fuel s msgBufSize
+  unfold evRead
+  simp only
+  split
+  · exact h
+  · split
+    · exact h
+    · split
+      · exact h
+      · exact h
+
+/-- the read branch of an iteration leaves the write side exactly as the send half left it -/
+theorem runOnce_wr (fuel : Nat) (s : St C) : wr (runOnce fuel s).1 = wr (runOnceSend fuel s) := by
+  unfold runOnce
+  simp only
+  split
+  · exact evRead_wr _ _
+  · rfl
+
+/-! ### read path -/
+
+theorem connDecompress_le (s : St C) (fresh : Bytes) (len : Nat) :
+    FlagsLe s (connDecompress s fresh len).1 := by
+  unfold connDecompress
+  simp only
+  split
+  · exact ⟨by simp, by simp⟩
+  · split
+    · exact ⟨by simp, by simp⟩
+    · exact ⟨by simp [disconnect], by simp [disconnect]⟩
+
+theorem lowerRead_le (s : St C) (len : Nat) : FlagsLe s (lowerRead s len).1 := by
+  have h := lowerRead_wr s len
+  exact ⟨fun x => by rw [← h.2.2.1]; exact x, fun x => by rw [h.2.2.2]; exact x⟩
+
+theorem compressionRead_le : ∀ (fuel : Nat) (s : St C) (len : Nat),
+    FlagsLe s (compressionRead fuel s len).1 := by
+  intro fuel
+  induction fuel with
+  | zero => intro s len; exact ⟨by simp [compressionRead], by simp [compressionRead]⟩
+  | succ fuel ih =>
+    intro s len
+    unfold compressionRead
+    split
+    · simp only
+      split
+      · exact connDecompress_le _ _ _
+      · exact (connDecompress_le _ _ _).trans (ih _ _)
+    · simp only
+      split
+      · exact lowerRead_le _ _
+      · split
+        · exact (lowerRead_le _ _).trans (connDecompress_le _ _ _)
+        · exact (lowerRead_le _ _).trans ((connDecompress_le _ _ _).trans (ih _ _))
+
+theorem evRead_le (fuel : Nat) (s : St C) : FlagsLe s (evRead fuel s).1 := by
+  have h := compressionRead_le fuel s msgBufSize
+  unfold evRead
+  simp only
+  split
+  · exact h
+  · split
+    · exact h.trans ⟨by simp [disconnect], by simp [disconnect]⟩
+    · split
+      · exact h.trans ⟨by simp [disconnect], by simp [disconnect]⟩
+      · exact h
+
+theorem runOnce_le (fuel : Nat) (s : St C) : FlagsLe s (runOnce fuel s).1 := by
+  unfold runOnce
+  simp only
+  split
+  · exact (runOnceSend_le _ _).trans (evRead_le _ _)
+  · exact runOnceSend_le _ _
+
 theorem readLoop_le (wfuel : Nat) : ∀ (fuel : Nat) (s : St C) (acc : Bytes) (rets : List Int),
     FlagsLe s (readLoop wfuel fuel s acc rets).1 := by
   intro fuel
@@ -720,220 +1245,411 @@ theorem readLoop_le (wfuel : Nat) : ∀ (fuel : Nat) (s : St C) (acc : Bytes) (r
   | zero => intro s acc rets; exact ⟨by simp [readLoop], by simp [readLoop]⟩
   | succ fuel ih =>
     intro s acc rets
-    have hs : FlagsLe s (runOnceSend wfuel { s with sched := [] }) :=
-      FlagsLe.trans (t := { s with sched := [] }) ⟨by simp, by simp⟩ (runOnceSend_le _ _)
+    have hs : FlagsLe s (runOnce wfuel { s with sched := [] }).1 :=
+      FlagsLe.trans (t := { s with sched := [] }) ⟨by simp, by simp⟩ (runOnce_le _ _)
     unfold readLoop
     split
     · simp only
       split
-      · exact hs.trans ((evRead_le _).trans (ih _ _ _))
       · exact hs
+      · exact hs.trans (ih _ _ _)
     · exact FlagsLe.refl s
 
 /-- what the read side maintains: everything that arrived is either consumed by inflate, waiting
     in the decompression buffer, or still in the lower transport; everything inflate produced was
-    delivered -/
+    delivered; and when the decompression buffer is released inflate holds nothing back -/
 structure RInv (HI : HInflate C) (s : St C) (allIn delivered : Bytes) : Prop where
   oki : HI.ok s.zi
   input : HI.cons s.zi ++ (s.inPend.getD [] ++ s.inq) = allIn
   output : HI.prod s.zi = delivered
-  done : s.readDone = true → HI.prod s.zi = HI.plain (HI.cons s.zi)
+  quiet : s.inPend = none → HI.prod s.zi = HI.plain (HI.cons s.zi)
 
-theorem connDecompress_ok (HI : HInflate C) (s : St C) (fresh : Bytes) (len : Nat) (inq' : Bytes)
-    (allIn del : Bytes) (hok : HI.ok s.zi) (hout : HI.prod s.zi = del)
-    (hin : HI.cons s.zi ++ ((decompInput s fresh) ++ inq') = allIn)
-    (hq : s.inq = inq')
-    (hpos : (connDecompress s fresh len).2.1 > 0) :
-    RInv HI (connDecompress s fresh len).1 allIn (del ++ (connDecompress s fresh len).2.2) := by
-  revert hpos
+/-- inflate reports no error (a healthy stream) -/
+def Healthy (C : Codec) : Prop :=
+  ∀ i inp room, (C.inflate i inp room).2.2.2 = Gen.Zl.zOk ∨ (C.inflate i inp room).2.2.2 = Gen.Zl.zBufError
+
+theorem getD_ite (c : Prop) [Decidable c] (l : Bytes) (h : c → l = []) :
+    Option.getD (if c then none else some l) [] = l := by
+  split
+  · rename_i hc; simp [h hc]
+  · rfl
+
+theorem connDecompress_ok (HI : HInflate C) (hh : Healthy C) (s : St C) (fresh : Bytes) (len : Nat)
+    (inq' allIn del : Bytes) (hlen : 0 < len) (hok : HI.ok s.zi) (hout : HI.prod s.zi = del)
+    (hin : HI.cons s.zi ++ (decompInput s fresh ++ inq') = allIn) (hq : s.inq = inq') :
+    RInv HI (connDecompress s fresh len).1 allIn (del ++ (connDecompress s fresh len).2.2) ∧
+    (connDecompress s fresh len).1.connected = s.connected ∧
+    (connDecompress s fresh len).1.error = s.error ∧
+    (connDecompress s fresh len).1.lerr = s.lerr ∧
+    (connDecompress s fresh len).1.inEof = s.inEof ∧
+    0 ≤ (connDecompress s fresh len).2.1 ∧
+    ((connDecompress s fresh len).2.1 = 0 → (connDecompress s fresh len).2.2 = []) := by
   have hcl := HI.consumed_le s.zi (decompInput s fresh) len hok
   have hsc := HI.step_cons s.zi (decompInput s fresh) len hok
   have hsp := HI.step_prod s.zi (decompInput s fresh) len hok
   have hco := HI.complete s.zi (decompInput s fresh) len hok
   have hso := HI.step_ok s.zi (decompInput s fresh) len hok
+  have hbe := HI.buf_error s.zi (decompInput s fresh) len hok
+  have hhe := hh s.zi (decompInput s fresh) len
   unfold connDecompress
   simp only
   split
   · rename_i hrc
-    intro _
-    refine ⟨hso, ?_, ?_, ?_⟩
+    refine ⟨⟨hso, ?_, ?_, ?_⟩, rfl, rfl, rfl, rfl, ?_, ?_⟩
+    rotate_left 3
+    · show (0 : Int) ≤ ((C.inflate s.zi (decompInput s fresh) len).2.2.1.length : Int)
+      omega
+    · intro h0
+      have : (C.inflate s.zi (decompInput s fresh) len).2.2.1.length = 0 := by
+        have h0' : ((C.inflate s.zi (decompInput s fresh) len).2.2.1.length : Int) = 0 := h0
+        omega
+      exact List.eq_nil_of_length_eq_zero this
     · show HI.cons (C.inflate _ _ _).1 ++ (Option.getD (if _ then none else some _) [] ++ s.inq) = allIn
-      rw [hsc, hq, ← hin]
-      have hp : ∀ (l : Bytes), Option.getD (if l.isEmpty then none else some l) [] = l := by
-        intro l; cases l <;> simp
-      rw [hp, List.append_assoc, ← List.append_assoc (List.take _ _), List.take_append_drop]
+      rw [getD_ite _ _ (fun h => List.isEmpty_iff.mp h.1), hsc, hq, ← hin,
+        List.append_assoc, ← List.append_assoc (List.take _ _), List.take_append_drop]
     · show HI.prod (C.inflate _ _ _).1 = _
       rw [hsp, hout]
-    · intro hd
-      have hd' : (C.inflate s.zi (decompInput s fresh) len).2.2.1.length < len := by
-        simpa using hd
-      exact (hco (by cases hrc with | inl h => exact Or.inr h | inr h => exact Or.inl h) hd').2
-  · split
-    · intro h; simp at h
-    · intro h; simp at h
+    · intro hn
+      have hn' : (if (List.drop (C.inflate s.zi (decompInput s fresh) len).2.1 (decompInput s fresh)).isEmpty = true ∧
+          (C.inflate s.zi (decompInput s fresh) len).2.2.1.length < len then (none : Option Bytes)
+          else some (List.drop (C.inflate s.zi (decompInput s fresh) len).2.1 (decompInput s fresh))) = none := hn
+      by_cases hc : (List.drop (C.inflate s.zi (decompInput s fresh) len).2.1 (decompInput s fresh)).isEmpty = true ∧
+          (C.inflate s.zi (decompInput s fresh) len).2.2.1.length < len
+      · exact (hco (by cases hrc with | inl h => exact Or.inr h | inr h => exact Or.inl h) hc.2).2
+      · rw [if_neg hc] at hn'; cases hn'
+  · rename_i hnrc
+    have hrcb : (C.inflate s.zi (decompInput s fresh) len).2.2.2 = Gen.Zl.zBufError := by
+      cases hhe with
+      | inl h => exact absurd (Or.inr h) hnrc
+      | inr h => exact h
+    obtain ⟨hn0, ho0⟩ := hbe hrcb
+    rw [if_pos hrcb]
+    refine ⟨⟨hso, ?_, ?_, ?_⟩, rfl, rfl, rfl, rfl, Int.le_refl 0, fun _ => rfl⟩
+    · show HI.cons (C.inflate _ _ _).1 ++ (Option.getD (if _ then none else some _) [] ++ s.inq) = allIn
+      rw [getD_ite _ _ (fun h => List.isEmpty_iff.mp h), hsc, hq, ← hin,
+        List.append_assoc, ← List.append_assoc (List.take _ _), List.take_append_drop]
+    · show HI.prod (C.inflate _ _ _).1 = _ ++ []
+      rw [hsp, hout, ho0]
+    · intro hn
+      have hn' : (if (List.drop (C.inflate s.zi (decompInput s fresh) len).2.1 (decompInput s fresh)).isEmpty = true
+          then (none : Option Bytes)
+          else some (List.drop (C.inflate s.zi (decompInput s fresh) len).2.1 (decompInput s fresh))) = none := hn
+      by_cases hc : (List.drop (C.inflate s.zi (decompInput s fresh) len).2.1 (decompInput s fresh)).isEmpty = true
+      · rw [hn0] at hc
+        have hinp : decompInput s fresh = [] := by simpa using hc
+        have hb := HI.buf_error_complete s.zi len hok hlen (by rw [← hinp]; exact hrcb)
+        show HI.prod (C.inflate _ _ _).1 = HI.plain (HI.cons (C.inflate _ _ _).1)
+        rw [hsp, hsc, ho0, hn0]
+        simpa using hb
+      · rw [if_neg hc] at hn'; cases hn'
 
-theorem compressionRead_ok (HI : HInflate C) (s : St C) (len : Nat) (allIn del : Bytes)
-    (hi : RInv HI s allIn del) (hpos : (compressionRead s len).2.1 > 0) :
-    RInv HI (compressionRead s len).1 allIn (del ++ (compressionRead s len).2.2) := by
-  revert hpos
-  unfold compressionRead
-  split
-  · rename_i p hp
-    intro hpos
-    refine connDecompress_ok HI s [] len s.inq allIn del hi.oki hi.output ?_ rfl hpos
-    simpa [decompInput, hp] using hi.input
-  · rename_i hp
+theorem msgBufSize_pos : 0 < msgBufSize := by decide
+
+theorem compressionRead_ok (HI : HInflate C) (hh : Healthy C) : ∀ (fuel : Nat) (s : St C) (len : Nat)
+    (allIn del : Bytes), 0 < len → RInv HI s allIn del → s.connected = true → s.inEof = false →
+    (compressionRead fuel s len).1.diverged = false →
+    RInv HI (compressionRead fuel s len).1 allIn (del ++ (compressionRead fuel s len).2.2) ∧
+    (compressionRead fuel s len).1.connected = true ∧
+    (compressionRead fuel s len).1.error = s.error ∧
+    (compressionRead fuel s len).1.inEof = false ∧
+    ((compressionRead fuel s len).2.1 ≤ 0 → (compressionRead fuel s len).2.1 < 0 ∧
+      recoverable (compressionRead fuel s len).1.lerr = true ∧ (compressionRead fuel s len).2.2 = []) := by
+  intro fuel
+  induction fuel with
+  | zero => intro s len allIn del _ _ _ _ hd; simp [compressionRead] at hd
+  | succ fuel ih =>
+    intro s len allIn del hlen hi hconn heof
+    unfold compressionRead
+    split
+    · rename_i p hp
+      simp only
+      have hin : HI.cons s.zi ++ (decompInput s [] ++ s.inq) = allIn := by
+        simpa [decompInput, hp] using hi.input
+      obtain ⟨r1, r2, r3, _, r5, r6, r7⟩ :=
+        connDecompress_ok HI hh s [] len s.inq allIn del hlen hi.oki hi.output hin rfl
+      split
+      · rename_i hcond
+        intro _
+        refine ⟨r1, by rw [r2]; exact hconn, r3, by rw [r5]; exact heof, ?_⟩
+        intro hle
+        exfalso
+        cases hcond with
+        | inl h => exact h (Int.le_antisymm hle r6)
+        | inr h => rw [r2, hconn] at h; cases h
+      · rename_i hcond
+        intro hd
+        have h0 : (connDecompress s [] len).2.1 = 0 := by
+          by_cases h : (connDecompress s [] len).2.1 = 0
+          · exact h
+          · exact absurd (Or.inl h) hcond
+        have r1' : RInv HI (connDecompress s [] len).1 allIn del := by
+          have := r1; rw [r7 h0, List.append_nil] at this; exact this
+        obtain ⟨a, b, c, d, e⟩ := ih _ len allIn del hlen r1' (by rw [r2]; exact hconn) (by rw [r5]; exact heof) hd
+        exact ⟨a, b, c.trans r3, d, e⟩
+    · rename_i hp
+      simp only
+      have hw := lowerRead_wr s bufSize
+      split
+      · rename_i hle
+        intro _
+        -- the lower transport has nothing: -1 / EAGAIN (there is no EOF in this history)
+        have hemp : s.inq.isEmpty = true := by
+          cases h : s.inq.isEmpty with
+          | true => rfl
+          | false =>
+            exfalso
+            have hb := bufSize_pos
+            have hlen' : 0 < s.inq.length := by
+              cases hq : s.inq with
+              | nil => simp [hq] at h
+              | cons a t => simp
+            have hl : lowerRead s bufSize =
+                ({ s with inq := s.inq.drop (min s.inq.length bufSize) },
+                 ((min s.inq.length bufSize : Nat) : Int), s.inq.take (min s.inq.length bufSize)) := by
+              simp [lowerRead, h]
+            rw [hl] at hle
+            have hle' : ((min s.inq.length bufSize : Nat) : Int) ≤ 0 := hle
+            omega
+        have hlr : lowerRead s bufSize = ({ s with lerr := Gen.Zl.eAgain }, -1, []) := by
+          simp [lowerRead, hemp, heof]
+        rw [hlr]
+        refine ⟨⟨hi.oki, hi.input, by simpa using hi.output, hi.quiet⟩, hconn, rfl, heof, ?_⟩
+        intro _
+        exact ⟨by show (-1 : Int) < 0; omega, recoverable_eagain, rfl⟩
+      · rename_i hpos
+        have hne : s.inq.isEmpty = false := by
+          cases h : s.inq.isEmpty with
+          | false => rfl
+          | true => simp [lowerRead, h, heof] at hpos
+        have hlr : lowerRead s bufSize =
+            ({ s with inq := s.inq.drop (min s.inq.length bufSize) },
+             ((min s.inq.length bufSize : Nat) : Int), s.inq.take (min s.inq.length bufSize)) := by
+          simp [lowerRead, hne]
+        rw [hlr]
+        have hin : HI.cons s.zi ++ (decompInput { s with inq := s.inq.drop (min s.inq.length bufSize) }
+            (s.inq.take (min s.inq.length bufSize)) ++ s.inq.drop (min s.inq.length bufSize)) = allIn := by
+          simp only [decompInput, hp]
+          rw [List.take_append_drop]
+          simpa [hp] using hi.input
+        obtain ⟨r1, r2, r3, _, r5, r6, r7⟩ :=
+          connDecompress_ok HI hh { s with inq := s.inq.drop (min s.inq.length bufSize) }
+            (s.inq.take (min s.inq.length bufSize)) len _ allIn del hlen hi.oki hi.output hin rfl
+        split
+        · rename_i hcond
+          intro _
+          refine ⟨r1, by rw [r2]; exact hconn, r3, by rw [r5]; exact heof, ?_⟩
+          intro hle
+          exfalso
+          cases hcond with
+          | inl h => exact h (Int.le_antisymm hle r6)
+          | inr h => rw [r2] at h; simp [hconn] at h
+        · rename_i hcond
+          intro hd
+          have h0 : (connDecompress { s with inq := s.inq.drop (min s.inq.length bufSize) }
+              (s.inq.take (min s.inq.length bufSize)) len).2.1 = 0 := by
+            by_cases h : (connDecompress { s with inq := s.inq.drop (min s.inq.length bufSize) }
+                (s.inq.take (min s.inq.length bufSize)) len).2.1 = 0
+            · exact h
+            · exact absurd (Or.inl h) hcond
+          have r1' := r1
+          rw [r7 h0, List.append_nil] at r1'
+          obtain ⟨a, b, c, d, e⟩ := ih _ len allIn del hlen r1' (by rw [r2]; exact hconn)
+            (by rw [r5]; exact heof) hd
+          exact ⟨a, b, c.trans r3, d, e⟩
+
+theorem evRead_ok (HI : HInflate C) (hh : Healthy C) (fuel : Nat) (s : St C) (allIn del : Bytes)
+    (hi : RInv HI s allIn del) (hconn : s.connected = true) (heof : s.inEof = false)
+    (hd : (evRead fuel s).1.diverged = false) :
+    RInv HI (evRead fuel s).1 allIn (del ++ (evRead fuel s).2.2) ∧
+    (evRead fuel s).1.connected = true ∧ (evRead fuel s).1.error = s.error ∧
+    (evRead fuel s).1.inEof = false := by
+  have hdc : (compressionRead fuel s msgBufSize).1.diverged = false := by
+    refine nodiv_of_le ?_ hd
+    unfold evRead
     simp only
     split
-    · rename_i hret
-      intro hpos
-      have hne : s.inq.isEmpty = false := by
-        cases h : s.inq.isEmpty with
-        | false => rfl
-        | true => simp [lowerRead, h] at hret; split at hret <;> simp at hret
-      have hlr : lowerRead s bufSize =
-          ({ s with inq := s.inq.drop (min s.inq.length bufSize) },
-           ((min s.inq.length bufSize : Nat) : Int), s.inq.take (min s.inq.length bufSize)) := by
-        simp [lowerRead, hne]
-      rw [hlr] at hpos ⊢
-      refine connDecompress_ok HI _ _ len (s.inq.drop (min s.inq.length bufSize)) allIn del hi.oki hi.output ?_ rfl hpos
-      simp only [decompInput, hp]
-      rw [List.take_append_drop]
-      simpa [hp] using hi.input
-    · intro h; exact absurd h (by assumption)
-
-theorem evRead_ok (HI : HInflate C) (s : St C) (allIn del : Bytes) (hi : RInv HI s allIn del)
-    (hg : Good (evRead s).1) :
-    RInv HI (evRead s).1 allIn (del ++ (evRead s).2.2) := by
-  revert hg
+    · exact FlagsLe.refl _
+    · split
+      · exact ⟨by simp [disconnect], by simp [disconnect]⟩
+      · split
+        · exact ⟨by simp [disconnect], by simp [disconnect]⟩
+        · exact FlagsLe.refl _
+  obtain ⟨a, b, c, d, e⟩ := compressionRead_ok HI hh fuel s msgBufSize allIn del msgBufSize_pos hi hconn heof hdc
   unfold evRead
   simp only
   split
-  · rename_i hpos
-    intro _
-    exact compressionRead_ok HI s msgBufSize allIn del hi hpos
-  · split
-    · intro hg; have := hg.1; simp [disconnect] at this
-    · intro hg; have := hg.1; simp [disconnect] at this
+  · exact ⟨a, b, c, d⟩
+  · rename_i hnpos
+    obtain ⟨e1, e2, e3⟩ := e (by omega)
+    have e2' : ¬ (recoverable (compressionRead fuel s msgBufSize).1.lerr = false) := by rw [e2]; simp
+    have e1' : ¬ ((compressionRead fuel s msgBufSize).2.1 = 0) := by omega
+    simp only [e2', e1', ↓reduceIte]
+    rw [e3] at a
+    exact ⟨a, b, c, d⟩
+
+/-- both directions of one connection, between two calls of xmpp_run_once -/
+structure Both (H : HDeflate C) (HI : HInflate C) (s : St C) (sub allIn del : Bytes) : Prop where
+  w : RunInv H s sub
+  r : RInv HI s allIn del
+  conn : s.connected = true
+  err : s.error = 0
+  eof : s.inEof = false
 
 theorem rinv_of_rd (HI : HInflate C) (s t : St C) (allIn del : Bytes) (h : rd t = rd s)
-    (hi : RInv HI s allIn del) : RInv HI t allIn del := by
+    (hi : RInv HI s allIn del) : RInv HI t allIn del ∧ t.inEof = s.inEof := by
   simp only [rd, Prod.mk.injEq] at h
-  obtain ⟨h1, h2, h3, _, h5⟩ := h
-  exact ⟨by rw [h1]; exact hi.oki, by rw [h1, h2, h3]; exact hi.input, by rw [h1]; exact hi.output,
-    by rw [h1, h5]; exact hi.done⟩
+  obtain ⟨h1, h2, h3, h4⟩ := h
+  exact ⟨⟨by rw [h1]; exact hi.oki, by rw [h1, h2, h3]; exact hi.input, by rw [h1]; exact hi.output,
+    by rw [h1, h2]; exact hi.quiet⟩, h4⟩
 
-theorem readLoop_ok (HI : HInflate C) (wfuel : Nat) : ∀ (fuel : Nat) (s : St C) (acc : Bytes)
-    (rets : List Int) (allIn del : Bytes), RInv HI s allIn del →
-    Good (readLoop wfuel fuel s acc rets).1 →
+theorem runinv_of_wr (H : HDeflate C) (s t : St C) (sub : Bytes) (h : wr t = wr s)
+    (hi : RunInv H s sub) : RunInv H t sub := by
+  simp only [wr, Prod.mk.injEq] at h
+  obtain ⟨h1, h2, h3, _, h5, _⟩ := h
+  exact ⟨by rw [h1]; exact hi.okz, by rw [h1, h2, h5]; exact hi.stream, by rw [h2]; exact hi.outLe,
+    by rw [h3]; exact hi.wf, by rw [h1, h3]; exact hi.sub⟩
+
+theorem runOnce_ok (H : HDeflate C) (HI : HInflate C) (hh : Healthy C) (fuel : Nat) (s : St C)
+    (sub allIn del : Bytes) (hb : Both H HI s sub allIn del) (hn : NoErr s)
+    (hd : (runOnce fuel s).1.diverged = false) :
+    Both H HI (runOnce fuel s).1 sub allIn (del ++ (runOnce fuel s).2.1) ∧
+    ((runOnce fuel s).2.2.isEmpty = true →
+      (runOnce fuel s).1.inq = [] ∧ (runOnce fuel s).1.inPend = none ∧ (runOnce fuel s).2.1 = []) := by
+  have hds : (runOnceSend fuel s).diverged = false := by
+    refine nodiv_of_le ?_ hd
+    unfold runOnce
+    simp only
+    split
+    · exact evRead_le _ _
+    · exact FlagsLe.refl _
+  obtain ⟨w1, w2⟩ := runOnceSend_gen H fuel s sub hb.w hds
+  obtain ⟨c1, e1⟩ := w2 hb.conn hb.err hn
+  obtain ⟨r1, f1⟩ := rinv_of_rd HI s (runOnceSend fuel s) allIn del (runOnceSend_rd fuel s) hb.r
+  have heof1 : (runOnceSend fuel s).inEof = false := f1.trans hb.eof
+  revert hd
+  unfold runOnce
+  simp only
+  split
+  · intro hd
+    obtain ⟨a, b, c, d⟩ := evRead_ok HI hh fuel _ allIn del r1 c1 heof1 hd
+    refine ⟨⟨runinv_of_wr H _ _ sub (evRead_wr fuel _) w1, a, b, c.trans e1, d⟩, ?_⟩
+    intro h; simp at h
+  · rename_i hcond
+    intro _
+    refine ⟨⟨w1, by simpa using r1, c1, e1, heof1⟩, ?_⟩
+    intro _
+    simp only [c1, Bool.true_and, Bool.or_eq_true, not_or, readable, pending, heof1, Bool.or_false] at hcond
+    obtain ⟨h1, h2⟩ := hcond
+    refine ⟨?_, ?_, rfl⟩
+    · exact List.isEmpty_iff.mp (by simpa using h1)
+    · cases h : (runOnceSend fuel s).inPend with
+      | none => rfl
+      | some p => simp [h] at h2
+
+theorem readLoop_ok (H : HDeflate C) (HI : HInflate C) (hh : Healthy C) (wfuel : Nat) :
+    ∀ (fuel : Nat) (s : St C) (acc : Bytes) (rets : List Int) (sub allIn del : Bytes),
+    Both H HI s sub allIn del → (readLoop wfuel fuel s acc rets).1.diverged = false →
     ∃ x, (readLoop wfuel fuel s acc rets).2.1 = acc ++ x ∧
-      RInv HI (readLoop wfuel fuel s acc rets).1 allIn (del ++ x) ∧
-      (readLoop wfuel fuel s acc rets).1.inq = [] := by
+      Both H HI (readLoop wfuel fuel s acc rets).1 sub allIn (del ++ x) ∧
+      (readLoop wfuel fuel s acc rets).1.inq = [] ∧ (readLoop wfuel fuel s acc rets).1.inPend = none := by
   intro fuel
   induction fuel with
-  | zero => intro s acc rets allIn del _ hg; have := hg.2; simp [readLoop] at this
+  | zero => intro s acc rets sub allIn del _ hd; simp [readLoop] at hd
   | succ fuel ih =>
-    intro s acc rets allIn del hi hg
-    have hgs : Good s := Good.of_le (readLoop_le _ _ _ _ _) hg
-    revert hg
+    intro s acc rets sub allIn del hb hd
+    have hb0 : Both H HI { s with sched := [] } sub allIn del :=
+      ⟨⟨hb.w.okz, hb.w.stream, hb.w.outLe, hb.w.wf, hb.w.sub⟩,
+       ⟨hb.r.oki, hb.r.input, hb.r.output, hb.r.quiet⟩, hb.conn, hb.err, hb.eof⟩
+    have hn0 : NoErr { s with sched := [] } := by simp [NoErr]
+    revert hd
     unfold readLoop
     split
     · simp only
-      have hrd : rd (runOnceSend wfuel { s with sched := [] }) = rd s :=
-        (runOnceSend_rd wfuel _).trans rfl
-      have hi' := rinv_of_rd HI s _ allIn del hrd hi
       split
-      · intro hg
-        have hge : Good (evRead (runOnceSend wfuel { s with sched := [] })).1 :=
-          Good.of_le (readLoop_le _ _ _ _ _) hg
-        have h1 := evRead_ok HI _ allIn del hi' hge
-        obtain ⟨x, hx, hinv, hq⟩ := ih _ (acc ++ (evRead (runOnceSend wfuel { s with sched := [] })).2.2)
-          (rets ++ [(evRead (runOnceSend wfuel { s with sched := [] })).2.1]) allIn _ h1 hg
-        refine ⟨(evRead (runOnceSend wfuel { s with sched := [] })).2.2 ++ x, ?_, ?_, hq⟩
+      · rename_i hemp
+        intro hd
+        have hd' : (runOnce wfuel { s with sched := [] }).1.diverged = false := hd
+        obtain ⟨b1, b2⟩ := runOnce_ok H HI hh wfuel _ sub allIn del hb0 hn0 hd'
+        obtain ⟨q1, q2, q3⟩ := b2 hemp
+        rw [q3, List.append_nil] at b1
+        exact ⟨[], by simp, by simpa using b1, q1, q2⟩
+      · intro hd
+        have hd' : (runOnce wfuel { s with sched := [] }).1.diverged = false :=
+          nodiv_of_le (readLoop_le _ _ _ _ _) hd
+        obtain ⟨b1, _⟩ := runOnce_ok H HI hh wfuel _ sub allIn del hb0 hn0 hd'
+        obtain ⟨x, hx, hbx, hq1, hq2⟩ := ih _ (acc ++ (runOnce wfuel { s with sched := [] }).2.1)
+          (rets ++ (runOnce wfuel { s with sched := [] }).2.2) sub allIn _ b1 hd
+        refine ⟨(runOnce wfuel { s with sched := [] }).2.1 ++ x, ?_, ?_, hq1, hq2⟩
         · rw [hx, List.append_assoc]
-        · rw [← List.append_assoc]; exact hinv
-      · rename_i hdis
-        intro hg
-        exact absurd hg.1 hdis
-    · rename_i hcond
+        · rw [← List.append_assoc]; exact hbx
+    · rename_i hnc
       intro _
-      refine ⟨[], by simp, by simpa using hi, ?_⟩
-      simp only [hgs.1, Bool.true_and, readable, Bool.or_eq_true, not_or] at hcond
-      simp at hcond
-      exact List.isEmpty_iff.mp (by simpa using hcond.1)
+      exact absurd hb.conn hnc
 
 /-- the fold of `rxAll`, from an arbitrary accumulator -/
 def rxFold (wfuel fuel : Nat) (p : St C × Bytes) (frags : List Bytes) : St C × Bytes :=
   frags.foldl (fun p f => let r := rxFragment wfuel fuel p.1 f; (r.1, p.2 ++ r.2.1)) p
 
-theorem rxFold_cons (wfuel fuel : Nat) (p : St C × Bytes) (f : Bytes) (rest : List Bytes) :
-    rxFold wfuel fuel p (f :: rest) =
-      rxFold wfuel fuel ((rxFragment wfuel fuel p.1 f).1, p.2 ++ (rxFragment wfuel fuel p.1 f).2.1) rest := rfl
+theorem rxFold_cons (wfuel fuel : Nat) (p : St C × Bytes) (f : Bytes) (tl : List Bytes) :
+    rxFold wfuel fuel p (f :: tl) =
+      rxFold wfuel fuel ((rxFragment wfuel fuel p.1 f).1, p.2 ++ (rxFragment wfuel fuel p.1 f).2.1) tl := rfl
 
 theorem rxFold_le (wfuel fuel : Nat) : ∀ (frags : List Bytes) (p : St C × Bytes),
     FlagsLe p.1 (rxFold wfuel fuel p frags).1 := by
   intro frags
   induction frags with
   | nil => intro p; exact FlagsLe.refl _
-  | cons f rest ih =>
+  | cons f tl ih =>
     intro p
     rw [rxFold_cons]
     refine FlagsLe.trans ?_ (ih _)
     unfold rxFragment
     exact FlagsLe.trans (t := { p.1 with inq := p.1.inq ++ f }) ⟨by simp, by simp⟩ (readLoop_le _ _ _ _ _)
 
-theorem rxFold_ok (HI : HInflate C) (wfuel fuel : Nat) : ∀ (frags : List Bytes) (p : St C × Bytes)
-    (allIn : Bytes), RInv HI p.1 allIn p.2 → p.1.inq = [] → Good (rxFold wfuel fuel p frags).1 →
-    RInv HI (rxFold wfuel fuel p frags).1 (allIn ++ frags.flatten) (rxFold wfuel fuel p frags).2 ∧
-    (rxFold wfuel fuel p frags).1.inq = [] := by
+theorem rxFold_ok (H : HDeflate C) (HI : HInflate C) (hh : Healthy C) (wfuel fuel : Nat) :
+    ∀ (frags : List Bytes) (p : St C × Bytes) (sub allIn : Bytes),
+    Both H HI p.1 sub allIn p.2 → p.1.inq = [] → p.1.inPend = none →
+    (rxFold wfuel fuel p frags).1.diverged = false →
+    Both H HI (rxFold wfuel fuel p frags).1 sub (allIn ++ frags.flatten) (rxFold wfuel fuel p frags).2 ∧
+    (rxFold wfuel fuel p frags).1.inq = [] ∧ (rxFold wfuel fuel p frags).1.inPend = none := by
   intro frags
   induction frags with
-  | nil => intro p allIn hi hq _; simpa [rxFold] using ⟨hi, hq⟩
-  | cons f rest ih =>
-    intro p allIn hi hq hg
-    rw [rxFold_cons] at hg ⊢
-    have hg1 : Good (rxFragment wfuel fuel p.1 f).1 := Good.of_le (rxFold_le wfuel fuel rest _) hg
-    have hi1 : RInv HI { p.1 with inq := p.1.inq ++ f } (allIn ++ f) p.2 := by
-      refine ⟨hi.oki, ?_, hi.output, hi.done⟩
+  | nil => intro p sub allIn hb hq hp _; simpa [rxFold] using ⟨hb, hq, hp⟩
+  | cons f tl ih =>
+    intro p sub allIn hb hq hp hd
+    rw [rxFold_cons] at hd ⊢
+    have hd1 : (rxFragment wfuel fuel p.1 f).1.diverged = false := nodiv_of_le (rxFold_le wfuel fuel tl _) hd
+    have hb1 : Both H HI { p.1 with inq := p.1.inq ++ f } sub (allIn ++ f) p.2 := by
+      refine ⟨⟨hb.w.okz, hb.w.stream, hb.w.outLe, hb.w.wf, hb.w.sub⟩,
+        ⟨hb.r.oki, ?_, hb.r.output, hb.r.quiet⟩, hb.conn, hb.err, hb.eof⟩
       show HI.cons p.1.zi ++ (p.1.inPend.getD [] ++ (p.1.inq ++ f)) = allIn ++ f
-      rw [← hi.input]
+      rw [← hb.r.input]
       simp [List.append_assoc]
-    obtain ⟨x, hx, hinv, hq1⟩ := readLoop_ok HI wfuel fuel _ [] [] (allIn ++ f) p.2 hi1 hg1
-    have h2 := ih ((rxFragment wfuel fuel p.1 f).1, p.2 ++ (rxFragment wfuel fuel p.1 f).2.1) (allIn ++ f)
-      (by
-        show RInv HI (rxFragment wfuel fuel p.1 f).1 (allIn ++ f) (p.2 ++ (rxFragment wfuel fuel p.1 f).2.1)
-        have : (rxFragment wfuel fuel p.1 f).2.1 = x := by
-          unfold rxFragment; rw [hx]; simp
-        rw [this]; exact hinv)
-      hq1 hg
+    obtain ⟨x, hx, hbx, hq1, hp1⟩ := readLoop_ok H HI hh wfuel fuel _ [] [] sub (allIn ++ f) p.2 hb1 hd1
+    have hfx : (rxFragment wfuel fuel p.1 f).2.1 = x := by
+      unfold rxFragment; rw [hx]; simp
+    have h2 := ih ((rxFragment wfuel fuel p.1 f).1, p.2 ++ (rxFragment wfuel fuel p.1 f).2.1) sub (allIn ++ f)
+      (by rw [hfx]; exact hbx) hq1 hp1 hd
     simpa [List.append_assoc] using h2
 
 theorem init_rinv (HI : HInflate C) (dr : Bool) : RInv HI (init C dr) [] [] :=
   ⟨HI.init_ok, by simp [init, HI.init_cons], by simp [init, HI.init_prod],
    fun _ => by simp [init, HI.init_cons, HI.init_prod, HI.plain_nil]⟩
 
-/-- however the compressed bytes are fragmented: if the event loop is still connected after the
-    last fragment, nothing is left in the decompression buffer and the last inflate call had room
-    left, the parser got exactly the plaintext of everything that arrived -/
-theorem read_ok (HI : HInflate C) (dr : Bool) (wfuel fuel : Nat) (frags : List Bytes)
-    (hg : Good (rxAll wfuel fuel (init C dr) frags).1)
-    (hp : pending (rxAll wfuel fuel (init C dr) frags).1 = false)
-    (hd : (rxAll wfuel fuel (init C dr) frags).1.readDone = true) :
+/-- however the compressed bytes of a healthy stream are fragmented: the connection stays up and
+    the parser gets exactly the plaintext of everything that arrived -/
+theorem read_ok (H : HDeflate C) (HI : HInflate C) (hh : Healthy C) (dr : Bool) (wfuel fuel : Nat)
+    (frags : List Bytes) (hd : (rxAll wfuel fuel (init C dr) frags).1.diverged = false) :
+    (rxAll wfuel fuel (init C dr) frags).1.connected = true ∧
     (rxAll wfuel fuel (init C dr) frags).2 = HI.plain frags.flatten := by
-  have h := rxFold_ok HI wfuel fuel frags (init C dr, []) [] (init_rinv HI dr) rfl hg
-  obtain ⟨hi, hq⟩ := h
-  have hin := hi.input
-  have hpn : (rxFold wfuel fuel (init C dr, []) frags).1.inPend = none := by
-    have hp' : pending (rxFold wfuel fuel (init C dr, []) frags).1 = false := hp
-    unfold pending at hp'
-    cases hh : (rxFold wfuel fuel (init C dr, []) frags).1.inPend with
-    | none => rfl
-    | some p => rw [hh] at hp'; simp at hp'
-  rw [hq, hpn] at hin
+  have hb0 : Both H HI (init C dr, ([] : Bytes)).1 [] [] (init C dr, ([] : Bytes)).2 :=
+    ⟨init_inv H dr, init_rinv HI dr, rfl, rfl, rfl⟩
+  obtain ⟨hb, hq, hp⟩ := rxFold_ok H HI hh wfuel fuel frags (init C dr, []) [] [] hb0 rfl rfl hd
+  refine ⟨hb.conn, ?_⟩
+  have hin := hb.r.input
+  rw [hq, hp] at hin
   simp only [Option.getD_none, List.append_nil, List.nil_append] at hin
-  have hout := hi.output
-  have hdone := hi.done hd
   show (rxFold wfuel fuel (init C dr, []) frags).2 = _
-  rw [← hout, hdone, hin]
+  rw [← hb.r.output, hb.r.quiet hp, hin]
 
 end Strophe.Lemmas.Compression
